@@ -1,39 +1,39 @@
-(* NoPanicFactsB.v — C11 / C06 "never panics", part B: path_exchange (CExch) and spawn_vehicle_for_maintenance (CMaint)
-   of the neighbourhood model (Swaps.v), statements of NoPanicStmts.v.
+(* NoPanicFactsB.v — C11 / C06 "never panics", part B, for the model AFTER the repair "a spawn without any free
+   depot is refused instead of panicking" (find_best_start_depot_res in add_suitable_depots): path_exchange (CExch) and
+   spawn_vehicle_for_maintenance (CMaint) of the neighbourhood model (Swaps.v), and, together with part A
+   (NoPanicFactsA.v), the whole neighbourhood.  Each part is a Module; the main theorems are re-exported at the end.
 
-   RESULTS (each part is a Module; the main theorems are re-exported at the end of the file)
+   MAIN RESULTS (NPB_comb)
+   * LSOK nw s := wreachable nw s /\ FullLimits nw s /\ FKs nw s, where FullLimits = per-type and total capacity of EVERY
+     depot index, the overflow depot included (NPB_lim), FKs = every real tour starts at a listed start depot
+     (EndToEndFacts).  Under net_fine, net_extra_b (part A), finite distances, depot_lists:
+       apply_cand_ok            : LSOK s -> enumerated c -> no_crash (apply_cand nw s c) /\ (result Ok s' -> LSOK s')
+       neighbors_no_crash_limits: LSOK s -> no_crash (neighbors nw s)
+       neighbors_keep_limits, local_search_never_crashes: every schedule the local search can visit from an LSOK
+         schedule is LSOK and its neighbourhood is generated without a crash.
+     neighbors_no_crash_loaded / local_search_never_crashes_loaded: the same for every network loaded from a valid
+     instance with non-negative cost rates.  NO room hypothesis is left:
+     - the two spawn sites (replacement of the dummy when the provider's tour was used up; conflict path of a
+       maintenance slot) return Err without room since the repair;
+     - improve_depots_of_tour's expect cannot fail (NPB_imp.improve_and_recompute_le2): the lists the swaps pass have
+       at most two vehicles, all of ONE type (path_exchange_pre / maint_pre prove it: the service node of the new
+       dummy ties the types); after the release each vehicle's own place is free again because the schedule is
+       within the limits, and a vehicle of the same type that takes the other one's place leaves its own.
+   * The limits hypothesis cannot be dropped for arbitrary wreachable schedules (NPB_wit3.WitnessLimits): the public
+     spawn_vehicle_for_path with a Path that names a FULL depot puts the vehicle into the overflow depot without any
+     check (add_suitable_depots), so the overflow depot can be over-full; an enumerated CExch that re-homes a vehicle
+     of the over-full depot then panics at improve_depots_of_tour's expect.  Such a state is not reachable by
+     local-search moves from a schedule within the limits (local_search_never_crashes).
+   * NPB_wit.WitnessRoom: regression example of the repaired defect (all depots incl. overflow full after nine
+     enumerated moves; the enumerated CMaint is now refused; the pre-repair lookup still panics on that usage map);
+     NPB_wit3.RoomCovered: that state satisfies LSOK, the final theorem applies to it.
+   * NPB_wit2.WitnessGood: stmt_apply_cand_no_crash is false over bare [Good] (dummy tours only chronological there).
    * wreachable_good : forall nw, stmt_wreachable_good nw.
-   * stmt_apply_cand_no_crash is FALSE as written, for two independent reasons (both kernel-checked witnesses):
-     - NPB_wit.WitnessRoom: on a loaded network, a schedule reached from a one-vehicle schedule by NINE ENUMERATED and
-       successful local-search moves has all depots INCLUDING THE OVERFLOW DEPOT full; the enumerated candidate
-       CMaint then panics at find_best_start_depot(..).expect("There should be at least the overflow depot available").
-       load sizes the overflow depot at max(nservice * max_formation_count, vehicle_upper_bound) where a vehicle type
-       WITHOUT formation limit counts as formation size 1, but hitch-hiking may put any number of such vehicles on one
-       trip.  Hence SpawnRoom cannot be dropped, and "SpawnRoom in every wreachable schedule" (the premise of
-       stmt_neighbors_no_crash) is false on that network.
-     - NPB_wit2.WitnessGood: [Good] (the bundle of the C10 statements) only demands that dummy tours are
-       chronological; on a Good record with SpawnRoom whose dummy tour is not connectable an enumerated CExch
-       candidate panics at check_receiver_type_compatibility's sub_path(..).unwrap().  No wreachable schedule has such
-       a dummy tour, so the theorems below are stated for wreachable schedules.
-   * NPB_px.path_exchange_pre / NPB_mt.maint_pre: on a wreachable schedule, for an enumerated segment / maintenance
-     candidate, the swap is either refused (Err) or EQUALS the final improve_and_recompute step on a wreachable
-     schedule with a duplicate-free list of vehicles — under explicit room hypotheses for the two
-     find_best_start_depot sites (spawn_to_replace_dummy after the provider's tour was used up; spawn_vehicle_for_path
-     for the conflict path of the maintenance slot).
-   * NPB_main: path_exchange_nc_enumerated, maintenance_nc_enumerated, apply_cand_exch_maint_no_crash, with the other
-     prover's result as the explicit premise [IR] (improve_and_recompute returns Ok; no_crash alone would not do, since
-     the swaps turn its Err into a panic).
-   * NPB_comb (uses NoPanicFactsA.v): apply_cand_no_crash_under_rooms and neighbors_no_crash_under_rooms — for every
-     wreachable schedule of a network with net_fine, net_extra_b (part A's executable side conditions, which imply
-     unsigned_ok and cov_all), finite distances: if every wreachable schedule has SpawnRoom and room for two more
-     vehicles (RoomN 2), then no candidate application and hence [neighbors] never crashes.  (By WitnessRoom that room
-     premise is not satisfiable on every network: it is the precise precondition, not a fact.)
-   Network side conditions beyond net_fine: [unsigned_ok] (cost rates, planning duration, distances are >= 0: u64 in
-   the code, Z in the model; NPB_tour.TourNCWitness shows a panic with a negative rate) and [cov_all] (every activity
-   node is coverable); executable readings in NPB_chk. *)
+   Executable readings of the side conditions: NPB_chk (unsigned_b, cov_all_b), NPB_wit3 (caps_nonneg_b,
+   full_limits_b, fks_b). *)
 
 From Coq Require Sorted Arith.
-From RS Require Base Network NetSpec Tour TourStmts TourExactStmts Transition Schedule NoPanicStmts BaseFacts NetFacts TourSpec TourFacts TourValidFacts TourExactFacts TransSpec SchedInv SchedObs SchedStruct SchedCostsFacts SchedUnservedFacts SchedViolFacts SchedListFacts SchedToursFacts SchedFormLimFacts SchedUsageFacts SchedFormsFacts SchedTransFacts SchedExactFacts Swaps SwapsStmts SwapsFacts SwapsStmts2 SwapsFacts2 PipelineSched RenderStmts TransStmts TransFacts TransFacts2 NoPanicFactsA.
+From RS Require Base Network NetSpec Tour TourStmts TourExactStmts Transition Schedule NoPanicStmts BaseFacts NetFacts TourSpec TourFacts TourValidFacts TourExactFacts TransSpec SchedInv SchedObs SchedStruct SchedCostsFacts SchedUnservedFacts SchedViolFacts SchedListFacts SchedToursFacts SchedFormLimFacts SchedUsageFacts SchedFormsFacts SchedTransFacts SchedExactFacts Swaps SwapsStmts SwapsFacts SwapsStmts2 SwapsFacts2 PipelineSched RenderStmts TransStmts TransFacts TransFacts2 DepotStmts DepotFacts EndToEndStmts EndToEndFacts NoPanicFactsA LoadStmts LoadFacts RenderFacts4.
 
 Module NPB_defs.
 Import Base Network NetSpec Tour TourStmts TourExactStmts Transition Schedule NoPanicStmts.
@@ -1348,19 +1348,16 @@ Definition cov_all : Prop := forall n, is_depot (nd nw n) = false -> In n (cover
 
 (** * add_suitable_depots *)
 Lemma asd_nc s ty path :
-  path <> [] ->
-  (forall f, hd_error path = Some f -> is_depot (nd nw f) = false ->
-             exists d, find_best_start_depot nw (s_usage s) ty f = Ok d) ->
-  no_crash (add_suitable_depots nw s ty path).
+  path <> [] -> no_crash (add_suitable_depots nw s ty path).
 Proof.
-  intros NE FB. unfold add_suitable_depots. destruct path as [|first rest]; [congruence|].
+  intros NE. unfold add_suitable_depots. destruct path as [|first rest]; [congruence|].
   destruct (nw_overflow nw) as [[o1 os] oe].
   destruct (is_depot (nd nw first)) eqn:Ed; cbn [andb].
   - destruct (negb (can_depot_spawn nw (s_usage s) first ty)); [apply nc_ok|].
     cbn [bind]. destruct (is_depot (nd nw (last (first :: rest) first))); [apply nc_ok|].
     unfold find_best_end_depot.
     destruct (hd_error (end_depots_sorted_by_distance_from _ _)); cbn [ok_or_err bind]; [apply nc_ok | apply nc_err].
-  - destruct (FB first eq_refl Ed) as [d ->]. cbn [bind].
+  - unfold find_best_start_depot_res. destruct (find _ _); cbn [ok_or_err bind]; [|apply nc_err].
     destruct (is_depot (nd nw (last (first :: rest) first))); [apply nc_ok|].
     unfold find_best_end_depot.
     destruct (hd_error (end_depots_sorted_by_distance_from _ _)); cbn [ok_or_err bind]; [apply nc_ok | apply nc_err].
@@ -1409,11 +1406,9 @@ Qed.
 Theorem spawn_nc : forall s ty path,
   cov_all -> SchedCostsFacts.Inv nw s -> LInv nw true s -> TransOK nw s -> US nw s -> FormsOK nw s ->
   In ty (type_ids nw) -> path <> [] ->
-  (forall f, hd_error path = Some f -> is_depot (nd nw f) = false ->
-             exists d, find_best_start_depot nw (s_usage s) ty f = Ok d) ->
   no_crash (spawn_vehicle_for_path nw s ty path).
 Proof.
-  intros s ty path CA I [V D] T U F Hty NE FB. unfold spawn_vehicle_for_path.
+  intros s ty path CA I [V D] T U F Hty NE. unfold spawn_vehicle_for_path.
   destruct (negb _); [apply nc_err|].
   pose proof (fresh_vehicle nw s I V) as Fr.
   apply nc_bind; [apply asd_nc; auto|]. intros nodes En.
@@ -1441,17 +1436,12 @@ Proof.
   intros [trans viol] Etr. apply nc_ok.
 Qed.
 
-(* the hypothesis about find_best_start_depot is necessary: find_best_start_depot is an unwrap (Ok or Panic), and when
-   it has no depot for a compatible path starting at an activity node, the spawn panics *)
-Lemma fbsd_ok_or_panic U ty f :
-  (exists d, find_best_start_depot nw U ty f = Ok d) \/ find_best_start_depot nw U ty f = Panic.
-Proof. unfold find_best_start_depot. destruct (find _ _); cbn [unwrap_opt]; eauto. Qed.
-
-Theorem spawn_panics_without_room : forall s ty f rest,
+(* since the repair "a spawn without any free depot is refused instead of panicking": no room => Err *)
+Theorem spawn_err_without_room : forall s ty f rest,
   forallb (fun n => compatible_with_vehicle_type nw n ty) (f :: rest) = true ->
   is_depot (nd nw f) = false ->
-  find_best_start_depot nw (s_usage s) ty f = Panic ->
-  spawn_vehicle_for_path nw s ty (f :: rest) = Panic.
+  find_best_start_depot_res nw (s_usage s) ty f = Err ->
+  spawn_vehicle_for_path nw s ty (f :: rest) = Err.
 Proof.
   intros s ty f rest C Hd P. unfold spawn_vehicle_for_path. rewrite C. cbn [negb].
   unfold add_suitable_depots. destruct (nw_overflow nw) as [[o1 os] oe].
@@ -1482,12 +1472,9 @@ Qed.
 Theorem spawn_to_replace_dummy_nc : forall s d ty,
   cov_all -> SchedCostsFacts.Inv nw s -> LInv nw true s -> TransOK nw s -> US nw s -> FormsOK nw s -> TIs nw s ->
   In ty (type_ids nw) ->
-  (forall s1 t, delete_dummy s d = Ok s1 -> vget d (s_dummies s) = Some t ->
-     forall f, hd_error (t_nodes t) = Some f ->
-     exists dep, find_best_start_depot nw (s_usage s1) ty f = Ok dep) ->
   no_crash (spawn_to_replace_dummy nw s d ty).
 Proof.
-  intros s d ty CA I L T U F TI Hty FB. unfold spawn_to_replace_dummy, spawn_vehicle_to_replace_dummy_tour.
+  intros s d ty CA I L T U F TI Hty. unfold spawn_to_replace_dummy, spawn_vehicle_to_replace_dummy_tour.
   destruct (vget d (s_dummies s)) as [t|] eqn:Gd; [|apply nc_err].
   destruct (negb _); [apply nc_err|]. cbn [bind].
   apply nc_bind; [now apply delete_dummy_nc|]. intros s1 E1.
@@ -1498,12 +1485,11 @@ Proof.
   - eapply delete_dummy_us; eauto.
   - eapply delete_dummy_forms; eauto.
   - destruct TI as [_ TD]. destruct (TD d t Gd) as (_ & NEt & _). exact NEt.
-  - intros f Hf _. eapply FB; eauto.
 Qed.
 End Spawn.
 
 Print Assumptions spawn_nc.
-Print Assumptions spawn_panics_without_room.
+Print Assumptions spawn_err_without_room.
 Print Assumptions delete_dummy_nc.
 Print Assumptions spawn_to_replace_dummy_nc.
 End NPB_spawn.
@@ -1907,9 +1893,130 @@ End FitRe.
 Print Assumptions fit_nc.
 End NPB_fitre.
 
+Module NPB_lim.
+Import Sorted.
+Import Base BaseFacts Network NetSpec NetFacts Tour TourSpec TourStmts TourFacts TourValidFacts TourExactStmts TourExactFacts Transition TransSpec Schedule SchedInv SchedObs SchedStruct SchedCostsFacts SchedUnservedFacts SchedViolFacts SchedListFacts SchedToursFacts SchedFormLimFacts SchedUsageFacts SchedFormsFacts SchedTransFacts SchedExactFacts Swaps SwapsStmts SwapsFacts SwapsStmts2 SwapsFacts2 PipelineSched RenderStmts NoPanicStmts DepotStmts DepotFacts NPB_defs.
+(* NPB_lim.v — depot limits INCLUDING the overflow depot as a property of the usage map, and the count effect of the
+   operations the swaps are made of (on top of DepotFacts.v, whose DepotLimitsOK exempts the overflow depot) *)
+
+
+Local Open Scope Z_scope.
+
+Section Lim.
+Variable nw : network.
+Hypothesis WF : net_wf_b nw = true.
+Hypothesis DP : durations_pos_b nw = true.
+Notation d0 := (SD 0).
+Notation idx := (get_depot_idx nw).
+Notation sst := spawned_same_type.
+
+(* per-type and total capacity of EVERY depot index, the overflow depot included *)
+Definition FLu (U : usage_t) : Prop :=
+  forall d, (forall ty, sst U d ty <= capacity_of nw d ty) /\ spawned_total nw U d <= total_capacity_of nw d.
+Definition FullLimits (s : schedule) : Prop := FLu (s_usage s).
+
+Lemma FLu_le U' U : ULe U' U -> FLu U -> FLu U'.
+Proof.
+  intros L H d. destruct (H d) as [A B]. split.
+  - intros ty. specialize (A ty). specialize (L d ty). lia.
+  - pose proof (total_le nw U' U d L). lia.
+Qed.
+
+Lemma FLu_add U' U sd ty0 : FLu U -> UAdd U' U (idx sd) ty0 -> can_depot_spawn nw U sd ty0 = true -> FLu U'.
+Proof.
+  intros H L C d. destruct (H d) as [A B]. apply can_spawn_lt in C. destruct C as [C1 C2].
+  pose proof (total_add nw U' U (idx sd) ty0 d L) as T. split.
+  - intros ty. specialize (A ty). specialize (L d ty).
+    destruct (pair_eqb (d, ty) (idx sd, ty0)) eqn:E; [|lia].
+    apply pair_eqb_eq in E. inversion E; subst. lia.
+  - destruct (Z.eqb_spec d (idx sd)) as [->|N]; lia.
+Qed.
+
+Lemma override_le s seg p r s' d : SchedCostsFacts.Inv nw s -> TIs nw s -> is_depot (nd nw (fst seg)) = false ->
+  override_reassign nw s seg p r = Ok (s', d) -> ULe (s_usage s') (s_usage s).
+Proof.
+  intros I T ND H. unfold override_reassign in H. destruct (vid_eqb p r) in H; [discriminate|].
+  mon H. destruct (negb a) eqn:OK; [discriminate|].
+  mon H. mon H. monp H. monp H. monp H.
+  apply panic_ok in E0, E1.
+  destruct (tour_of_T nw s p a0 I T E0) as (Vp & _ & _). destruct (tour_of_T nw s r a1 I T E1) as (Vr & _ & _).
+  destruct (remove_valid nw _ _ _ _ Vp E2) as (i & j & _ & _ & _ & _ & _ & VP & _).
+  pose proof (remove_path_hd nw _ _ _ _ Vp E2) as HD.
+  assert (LE : ULe l3 (s_usage s)).
+  { eapply (update_tours_le nw); [exact I|exact T|exact E0|exact E1| | |exact E4].
+    - intros nt -> D. eapply remove_first; eauto.
+    - intros D. eapply (insert_first_same nw WF DP); eauto. rewrite HD. apply nondep_not_sdep. exact ND. }
+  monp H. monp H. inversion H; subst; clear H. cbn [with_fields s_usage]. exact LE.
+Qed.
+
+Lemma fit_le s seg p r s' : SchedCostsFacts.Inv nw s -> TIs nw s -> is_depot (nd nw (fst seg)) = false ->
+  fit_reassign nw s seg p r = Ok s' -> ULe (s_usage s') (s_usage s).
+Proof.
+  intros I T ND H. unfold fit_reassign in H.
+  mon H. destruct (negb a) eqn:OK; [discriminate|].
+  mon H. mon H. mon H. monp H. monp H. monp H. inversion H; subst; clear H.
+  apply panic_ok in E0, E1.
+  destruct (tour_of_T nw s p a0 I T E0) as (Vp & _ & _). destruct (tour_of_T nw s r a1 I T E1) as (Vr & _ & _).
+  destruct (sub_path_valid nw _ _ _ (TV_connected nw _ Vp) E2) as [(_ & CP & _) _].
+  pose proof (sub_path_hd nw _ _ _ E2) as HD.
+  assert (HS : sdep nw (hd d0 a2) = false) by (rewrite HD; apply nondep_not_sdep; exact ND).
+  assert (H1 : forall prov, Some a0 = Some prov -> TV nw prov /\ t_dummy prov = t_dummy a0 /\
+                 (t_dummy a0 = false -> first_node prov = first_node a0)).
+  { intros prov Q. inversion Q; subst. auto. }
+  assert (H2 : TV nw a1 /\ t_dummy a1 = t_dummy a1 /\ (t_dummy a1 = false -> first_node a1 = first_node a1)) by auto.
+  assert (H3 : forall rem, Some a2 = Some rem -> connected nw rem /\ sdep nw (hd d0 rem) = false).
+  { intros rem Q. inversion Q; subst. auto. }
+  destruct (fit_loop_first nw WF DP _ _ _ _ _ _ _ _ _ _ _ _ H1 H2 H3 E3) as (HP & _ & _ & FR).
+  cbn [with_fields s_usage].
+  eapply (update_tours_le nw); [exact I|exact T|exact E0|exact E1| | |exact E4].
+  - intros nt -> D. destruct (HP nt eq_refl) as (_ & _ & F). auto.
+  - exact FR.
+Qed.
+
+Lemma spawn_add s ty path s' v : spawn_vehicle_for_path nw s ty path = Ok (s', v) ->
+  is_depot (nd nw (hd d0 path)) = false ->
+  exists sd, UAdd (s_usage s') (s_usage s) (idx sd) ty /\ can_depot_spawn nw (s_usage s) sd ty = true.
+Proof.
+  intros H ND. unfold spawn_vehicle_for_path in H.
+  destruct (negb _) in H; [discriminate|].
+  mon H. mon H. mon H. monp H. mon H. monp H. inversion H; subst; clear H.
+  cbn [with_fields s_usage].
+  apply udu_cnt in E3. rewrite !vget_vset, vid_eqb_refl in E3. destruct E3 as [A _].
+  pose proof (tour_new_nodes _ _ _ E0) as EN. rewrite first_node_hd, EN in A.
+  unfold add_suitable_depots in E. destruct path as [|first rest]; [discriminate|]. cbn [hd] in ND.
+  destruct (nw_overflow nw) as [[od os] oe]. rewrite ND in E. cbn [andb bind] in E.
+  destruct (find_best_start_depot_res nw (s_usage s) ty first) as [sd| | |] eqn:FB; cbn [bind] in E; try discriminate E.
+  apply find_best_res_iff in FB. apply find_best_can_spawn in FB.
+  exists sd. split; [|exact FB].
+  destruct (is_depot (nd nw (last (first :: rest) first))).
+  - inversion E as [Q]. rewrite <- Q in A. exact A.
+  - destruct (find_best_end_depot nw (last (first :: rest) first)) as [e| | |]; cbn [bind] in E; try discriminate E.
+    inversion E as [Q]. rewrite <- Q in A. exact A.
+Qed.
+
+Lemma add_path_le s v path s' c : SchedCostsFacts.Inv nw s -> TIs nw s -> valid_path nw path ->
+  is_depot (nd nw (hd d0 path)) = false ->
+  add_path_to_vehicle_tour nw s v path = Ok (s', c) -> ULe (s_usage s') (s_usage s).
+Proof.
+  intros I T VP ND H. unfold add_path_to_vehicle_tour in H.
+  destruct path as [|pf path'] eqn:EP; [discriminate|]. rewrite <- EP in *.
+  match type of H with (if ?b then _ else _) = _ => destruct b eqn:CK; [discriminate|] end.
+  mon H. mon H. monp H. mon H. monp H. monp H. mon H. mon H. monp H. inversion H; subst s' c; clear H.
+  apply unwrap_opt_ok in E0, E2.
+  cbn [with_fields s_usage].
+  apply udu_cnt in E6. rewrite E0, vget_vset, vid_eqb_refl in E6. destruct E6 as [A B].
+  assert (TO : tour_of s v = Ok a1) by (unfold tour_of; rewrite E2; reflexivity).
+  destruct (real_tour nw s v a0 a1 I T E0 TO) as (V & D & _).
+  pose proof (insert_first nw WF DP a1 path t o V D VP E3) as F.
+  change (node_is_depot nw (hd d0 path)) with (is_depot (nd nw (hd d0 path))) in F. rewrite ND in F.
+  apply (B (is_vehicle_some _ _ _ E0) a1 TO). rewrite F. reflexivity.
+Qed.
+End Lim.
+End NPB_lim.
+
 Module NPB_px.
 Import Sorted.
-Import Base BaseFacts Network NetSpec NetFacts Tour TourSpec TourStmts TourFacts TourValidFacts TourExactStmts TourExactFacts Transition TransSpec Schedule SchedInv SchedObs SchedStruct SchedCostsFacts SchedUnservedFacts SchedViolFacts SchedListFacts SchedToursFacts SchedFormLimFacts SchedUsageFacts SchedFormsFacts SchedTransFacts SchedExactFacts Swaps SwapsStmts SwapsFacts SwapsStmts2 SwapsFacts2 PipelineSched RenderStmts NoPanicStmts NPB_defs NPB_base NPB_sched NPB_tour NPB_trans NPB_seg NPB_utours NPB_spawn NPB_fit NPB_over NPB_fitre.
+Import Base BaseFacts Network NetSpec NetFacts Tour TourSpec TourStmts TourFacts TourValidFacts TourExactStmts TourExactFacts Transition TransSpec Schedule SchedInv SchedObs SchedStruct SchedCostsFacts SchedUnservedFacts SchedViolFacts SchedListFacts SchedToursFacts SchedFormLimFacts SchedUsageFacts SchedFormsFacts SchedTransFacts SchedExactFacts Swaps SwapsStmts SwapsFacts SwapsStmts2 SwapsFacts2 PipelineSched RenderStmts NoPanicStmts DepotStmts DepotFacts EndToEndStmts EndToEndFacts NPB_defs NPB_base NPB_sched NPB_tour NPB_trans NPB_seg NPB_utours NPB_spawn NPB_fit NPB_over NPB_fitre NPB_lim.
 (* NPB_px.v — path_exchange and spawn_vehicle_for_maintenance: up to the final improve_and_recompute they never crash *)
 
 
@@ -1954,6 +2061,7 @@ Hypothesis DF : dists_finite_b nw = true.
 Hypothesis DH : dh_dists_finite_b nw = true.
 Hypothesis U : unsigned_ok nw.
 Hypothesis CA : cov_all nw.
+Hypothesis DLI : depot_lists nw.
 Let WF := nf_wf nw NF.
 Let DP := nf_dp nw NF.
 Let ML := nf_ml nw NF.
@@ -1999,22 +2107,134 @@ Proof.
   intros [V _] G. apply (v_ids _ _ _ _ V) in G. apply iter_in_keys in G. now rewrite (v_keys _ _ _ _ V) in G.
 Qed.
 
+
+(** ** the vehicles of the changed list have one type *)
+Definition SameTyL (second : schedule) (l : list vehicle_id) : Prop :=
+  forall a b, In a l -> In b l -> is_vehicle second a = true -> is_vehicle second b = true ->
+    vget a (s_vehicles second) = vget b (s_vehicles second).
+
+Lemma SameTyL_single second l r : (forall x, In x l -> x = r) -> SameTyL second l.
+Proof. intros H a b Ha Hb _ _. rewrite (H a Ha), (H b Hb). reflexivity. Qed.
+
+Lemma update_tours_sub s vehicles tours forms usage dummies ids dids uns costs p ntp r ntr moved
+    vehicles1 tours2 forms2 usage2 dummies2 ids1 dids1 uns2 costs2 :
+  update_tours nw s vehicles tours forms usage dummies ids dids uns costs p ntp r ntr moved
+    = Ok (vehicles1, tours2, forms2, usage2, dummies2, ids1, dids1, uns2, costs2) ->
+  forall x ty, vget x vehicles1 = Some ty -> vget x vehicles = Some ty.
+Proof.
+  intros H. unfold update_tours in H.
+  monp H. mon H. monp H. mon H. monp H. inversion H; subst; clear H.
+  destruct ntp as [nt|].
+  - monp E. inversion E; subst; clear E. auto.
+  - mon E. destruct (is_dummy s p).
+    + mon E. inversion E; subst; clear E. auto.
+    + destruct (is_vehicle s p).
+      * mon E. mon E. inversion E; subst; clear E. intros x ty. rewrite vget_vdel.
+        destruct (vid_eqb x p); [discriminate|auto].
+      * inversion E; subst. auto.
+Qed.
+
+Lemma override_veh_sub s seg p r first nd0 : override_reassign nw s seg p r = Ok (first, nd0) ->
+  forall x ty, vget x (s_vehicles first) = Some ty -> vget x (s_vehicles s) = Some ty.
+Proof.
+  intros H. unfold override_reassign in H.
+  destruct (vid_eqb p r) eqn:Epr; [discriminate|].
+  mon H. destruct (negb _) in H; [discriminate|].
+  mon H. mon H. monp H. monp H. monp H.
+  monp H. monp H. inversion H; subst; clear H. cbn [with_fields s_vehicles].
+  eapply update_tours_sub; eauto.
+Qed.
+
+Lemma fit_veh_sub s seg p r s' : fit_reassign nw s seg p r = Ok s' ->
+  forall x ty, vget x (s_vehicles s') = Some ty -> vget x (s_vehicles s) = Some ty.
+Proof.
+  intros H. unfold fit_reassign in H.
+  mon H. destruct (negb _) in H; [discriminate|].
+  mon H. mon H. mon H. monp H. monp H. monp H. inversion H; subst; clear H. cbn [with_fields s_vehicles].
+  eapply update_tours_sub; eauto.
+Qed.
+
+Lemma fit_check s seg p r s' : fit_reassign nw s seg p r = Ok s' ->
+  check_receiver_type_compatibility nw s p r seg = Ok true.
+Proof.
+  intros H. unfold fit_reassign in H. mon H. destruct a; [reflexivity|discriminate H].
+Qed.
+
+Lemma override_dummy_parts s seg p r first d :
+  override_reassign nw s seg p r = Ok (first, Some d) ->
+  exists trc path ntr np dt, tour_of s r = Ok trc /\ insert_path nw trc path = Ok (ntr, Some np) /\
+    tour_new_dummy nw np = Ok dt /\ vget d (s_dummies first) = Some dt.
+Proof.
+  intros H. unfold override_reassign in H.
+  destruct (vid_eqb p r) eqn:Epr; [discriminate|].
+  mon H. destruct (negb _) in H; [discriminate|].
+  mon H. mon H. monp H. monp H. monp H.
+  monp H. monp H. inversion H; subst; clear H. cbn [with_fields s_dummies].
+  destruct o0 as [np|]; [|discriminate E5].
+  monp E5. destruct (tour_new_dummy nw np) as [dt| | |] eqn:ED; cbn [add_dummy_tour] in E5; inversion E5; subst.
+  apply panic_ok in E1.
+  exists a1, l, t, np, dt. repeat split; auto. rewrite vget_vset, vid_eqb_refl. reflexivity.
+Qed.
+
+Lemma dummy_service np dt : tour_new_dummy nw np = Ok dt ->
+  exists n, In n (t_nodes dt) /\ In n np /\ is_service (nd nw n) = true.
+Proof.
+  unfold tour_new_dummy. destruct (existsb _ _) eqn:E; [|discriminate]. intros H. inversion H; subst dt; clear H.
+  apply existsb_exists in E. destruct E as (n & Hn & Sn). exists n. cbn [new_computing t_nodes].
+  split; [exact Hn|]. apply filter_In in Hn. split; [tauto|exact Sn].
+Qed.
+
+Lemma insert_removed_incl t p t' np : insert_path nw t p = Ok (t', Some np) -> incl np (t_nodes t).
+Proof.
+  intros H. destruct (insert_path_nodes _ _ _ _ _ H) as (sp & ep & removed & p1 & IN & Er & _).
+  symmetry in Er. apply path_new_trusted_some in Er. destruct Er as [-> _].
+  apply insert_nodes_inv in IN. destruct IN as (_ & _ & _ & -> & _).
+  intros x Hx. unfold slice in Hx. eapply slice_incl; eauto.
+Qed.
+
+Lemma compat_service n ty : is_service (nd nw n) = true -> compatible_with_vehicle_type nw n ty = true ->
+  vehicle_type_for nw n = ty.
+Proof. unfold compatible_with_vehicle_type. intros ->. apply Z.eqb_eq. Qed.
+
+Lemma DT_first_nondep t : DT nw t -> is_depot (nd nw (first_node t)) = false.
+Proof.
+  intros (_ & NE & _ & ND). apply ND. unfold first_node, nth_node.
+  destruct (t_nodes t) as [|a l]; [congruence|]. left. reflexivity.
+Qed.
+
+(* the service node of the new dummy ties the types: r's type (r a vehicle of s) is the type of every vehicle whose
+   type is compatible with all nodes of the dummy tour *)
+Lemma dummy_type s seg p r first d dt a b :
+  wreachable nw s -> override_reassign nw s seg p r = Ok (first, Some d) -> vget d (s_dummies first) = Some dt ->
+  vget r (s_vehicles s) = Some a ->
+  (forall n, In n (t_nodes dt) -> compatible_with_vehicle_type nw n b = true) -> a = b.
+Proof.
+  intros R Eo Gd Ga Cb.
+  pose proof (wreachable_WS nw NF DF DH s R) as W.
+  destruct (override_dummy_parts s seg p r first d Eo) as (trc & path & ntr & np & dt' & Htr & Eins & ED & Gd').
+  rewrite Gd in Gd'. inversion Gd'; subst dt'; clear Gd'.
+  destruct (dummy_service np dt ED) as (n & Hn & Hnp & Sn).
+  pose proof (insert_removed_incl trc path ntr np Eins n Hnp) as Ht.
+  pose proof (tour_compat nw s r trc (ws_inv nw s W) (ws_T nw s W) Htr a Ga n Ht) as Ca.
+  rewrite <- (compat_service n a Sn Ca). apply compat_service; auto.
+Qed.
+
 (* path_exchange: either the candidate is refused, or everything up to the final improve_and_recompute succeeds, on a
-   wreachable schedule [second] and a duplicate-free list of vehicles of [second] *)
+   wreachable schedule [second] and a duplicate-free list of at most two vehicles of [second], all of one type;
+   [second] inherits the depot limits (overflow depot included) and the listed start depots of [s] *)
 Theorem path_exchange_pre s seg p r tp trc :
   wreachable nw s -> tour_of s p = Ok tp -> seg_ok nw tp seg -> tour_of s r = Ok trc ->
-  (* room for the vehicle that replaces the new dummy when the provider's tour was used up *)
-  (forall first d ty s1 t f, override_reassign nw s seg p r = Ok (first, Some d) ->
-     is_vehicle_or_dummy first p = false -> vget p (s_vehicles s) = Some ty ->
-     delete_dummy first d = Ok s1 -> vget d (s_dummies first) = Some t -> hd_error (t_nodes t) = Some f ->
-     exists dep, find_best_start_depot nw (s_usage s1) ty f = Ok dep) ->
   path_exchange nw s seg p r = Err \/
   exists second ch, wreachable nw second /\ NoDup ch /\ (forall v, In v ch -> is_vehicle second v = true) /\
-    (length ch <= 2)%nat /\
+    (length ch <= 2)%nat /\ SameTyL second ch /\
+    (FullLimits nw s -> FullLimits nw second) /\ (FKs nw s -> FKs nw second) /\
     path_exchange nw s seg p r = match improve_and_recompute nw second ch with Err => Panic | x => x end.
 Proof.
-  intros R Htp SO Htr Room.
+  intros R Htp SO Htr.
   pose proof (wreachable_WS nw NF DF DH s R) as W.
+  assert (NDs : is_depot (nd nw (fst seg)) = false).
+  { destruct SO as [Hs _]. destruct (tour_of_T nw s p tp (ws_inv nw s W) (ws_T nw s W) Htp) as (Vp & _ & _).
+    eapply non_depots_nondep; eauto. }
   unfold path_exchange.
   destruct (nc_cases _ (override_nc nw WF DP DF DH U CA s seg p r tp trc (ws_inv nw s W) (ws_L nw s W) (ws_T nw s W)
                           (ws_E nw s W) (ws_us nw s W) (ws_trans nw s W) (ws_forms nw s W) Htp SO Htr))
@@ -2022,46 +2242,115 @@ Proof.
   rewrite Eo. cbn [bind].
   pose proof (wreach_override nw s seg p r first newd R Eo) as R1.
   pose proof (wreachable_WS nw NF DF DH first R1) as W1.
+  assert (FL1 : FullLimits nw s -> FullLimits nw first).
+  { unfold FullLimits. apply FLu_le. eapply (override_le nw WF DP); eauto; [apply (ws_inv nw s W)|apply (ws_T nw s W)]. }
+  assert (FK1 : FKs nw s -> FKs nw first).
+  { intros K. eapply (override_FKs nw WF DP s seg p r first newd); eauto; [apply (ws_inv nw s W)|apply (ws_T nw s W)]. }
   set (changed0 := if is_vehicle s r then [r] else []).
   assert (L0 : (length changed0 <= 1)%nat) by (unfold changed0; destruct (is_vehicle s r); cbn; lia).
+  assert (C0 : forall x, In x changed0 -> x = r /\ is_vehicle s r = true).
+  { unfold changed0. destruct (is_vehicle s r); intros x Hx; [destruct Hx as [<-|[]]; auto|destruct Hx]. }
   match goal with |- bind ?X _ = Err \/ _ =>
     assert (HX : X = Err \/ exists second changed, X = Ok (second, changed) /\ wreachable nw second /\
-                                                  (length changed <= 2)%nat) end.
-  { destruct newd as [d|]; [|right; exists first, changed0; repeat split; auto; lia].
+                   (length changed <= 2)%nat /\ SameTyL second changed /\
+                   (FullLimits nw s -> FullLimits nw second) /\ (FKs nw s -> FKs nw second)) end.
+  { assert (Base : exists second changed, Ok (first, changed0) = Ok (second, changed) /\ wreachable nw second /\
+                   (length changed <= 2)%nat /\ SameTyL second changed /\
+                   (FullLimits nw s -> FullLimits nw second) /\ (FKs nw s -> FKs nw second)).
+    { exists first, changed0. split; [reflexivity|]. split; [exact R1|]. split; [lia|].
+      split; [|split; [exact FL1|exact FK1]].
+      apply (SameTyL_single first changed0 r). intros x Hx. apply (C0 x Hx). }
+    destruct newd as [d|]; [|right; exact Base].
     destruct (override_newd_tour s seg p r first d Eo) as [dt Gd].
     destruct (override_newd nw s seg p r first d Eo) as [Ed _].
     assert (Td : tour_of first d = Ok dt) by (apply dummy_key_tour_of; [apply (ws_inv nw first W1)|subst d; reflexivity|exact Gd]).
+    assert (DTd : DT nw dt) by (apply (ws_T nw first W1) in Gd; exact Gd).
     destruct (is_vehicle_or_dummy first p) eqn:Evd.
     - rewrite Td. cbn [bind].
       destruct (vod_tour first p (ws_L nw first W1) Evd) as [tp1 Htp1].
       assert (Nd : d <> p) by (eapply override_newd_fresh; [apply wreachable_reachable; exact R|exact Eo]).
-      assert (DTd : DT nw dt) by (apply (ws_T nw first W1) in Gd; exact Gd).
       pose proof (whole_sub_path nw WF DP dt (DT_TV nw dt DTd) (DT_nondepots dt DTd)) as Hsp.
       destruct (nc_cases _ (fit_nc nw WF DP DF DH U CA first (first_node dt, last_node dt) d p dt tp1 (t_nodes dt)
                   (ws_inv nw first W1) (ws_L nw first W1) (ws_T nw first W1) (ws_E nw first W1) (ws_us nw first W1)
                   (ws_trans nw first W1) (ws_forms nw first W1) Nd Td Htp1 Hsp)) as [->|[s2 E2]]; [left; reflexivity|].
-      rewrite E2. cbn [bind]. right. exists s2, (changed0 ++ [p]). repeat split; auto.
-      + eapply wreach_fit; eauto.
-      + rewrite app_length. cbn [length]. lia.
-    - destruct (is_vehicle s p) eqn:Evp; [|right; exists first, changed0; repeat split; auto; lia].
+      rewrite E2. cbn [bind]. right. exists s2, (changed0 ++ [p]).
+      assert (NDd : is_depot (nd nw (fst (first_node dt, last_node dt))) = false) by (cbn [fst]; now apply DT_first_nondep).
+      split; [reflexivity|]. split; [eapply wreach_fit; eauto|]. split; [rewrite app_length; cbn [length]; lia|].
+      split; [|split].
+      + (* one type *)
+        assert (Key : is_vehicle s r = true -> is_vehicle s2 r = true -> is_vehicle s2 p = true ->
+                      vget r (s_vehicles s2) = vget p (s_vehicles s2)).
+        { intros Vr0 Vr2 Vp2. unfold is_vehicle in Vr2, Vp2.
+          destruct (vget r (s_vehicles s2)) as [a|] eqn:Ga; [|discriminate].
+          destruct (vget p (s_vehicles s2)) as [b|] eqn:Gb; [|discriminate]. f_equal.
+          pose proof (fit_veh_sub _ _ _ _ _ E2 r a Ga) as Ga1. pose proof (override_veh_sub _ _ _ _ _ _ Eo r a Ga1) as Ga0.
+          pose proof (fit_veh_sub _ _ _ _ _ E2 p b Gb) as Gb1.
+          apply (dummy_type s seg p r first d dt a b R Eo Gd Ga0).
+          destruct (check_compat nw first d p _ dt (ws_inv nw first W1) (ws_T nw first W1) (fit_check _ _ _ _ _ E2) Td b Gb1)
+            as [C|(sp & Es & C)]; [exact C|].
+          rewrite Hsp in Es. inversion Es; subst sp. rewrite forallb_forall in C. exact C. }
+        intros x y Hx Hy Vx Vy. apply in_app_or in Hx. apply in_app_or in Hy.
+        destruct Hx as [Hx|[<-|[]]]; destruct Hy as [Hy|[<-|[]]].
+        * destruct (C0 _ Hx) as [-> _]. destruct (C0 _ Hy) as [-> _]. reflexivity.
+        * destruct (C0 _ Hx) as [-> Vr0]. apply Key; auto.
+        * destruct (C0 _ Hy) as [-> Vr0]. symmetry. apply Key; auto.
+        * reflexivity.
+      + intros K. unfold FullLimits. eapply FLu_le; [|apply (FL1 K)].
+        eapply (fit_le nw WF DP first _ d p s2); eauto; [apply (ws_inv nw first W1)|apply (ws_T nw first W1)].
+      + intros K. eapply (fit_FKs nw WF DP first _ d p s2); eauto; [apply (ws_inv nw first W1)|apply (ws_T nw first W1)].
+    - destruct (is_vehicle s p) eqn:Evp; [|right; exact Base].
       unfold is_vehicle in Evp. unfold vehicle_type_of.
       destruct (vget p (s_vehicles s)) as [ty|] eqn:Gty; [|discriminate]. cbn [ok_or_err bind].
       destruct (nc_cases _ (spawn_to_replace_dummy_nc nw first d ty CA (ws_inv nw first W1) (ws_L nw first W1)
                   (ws_trans nw first W1) (ws_us nw first W1) (ws_forms nw first W1) (ws_T nw first W1)
-                  (veh_type_in_ids s p ty (ws_L nw s W) Gty)
-                  (fun s1 t Hd Gt f Hf => Room first d ty s1 t f Eo Evd eq_refl Hd Gt Hf)))
+                  (veh_type_in_ids s p ty (ws_L nw s W) Gty)))
         as [->|[[s2 nv] E2]]; [left; reflexivity|].
-      rewrite E2. cbn [bind]. right. exists s2, (changed0 ++ [nv]). repeat split; auto.
-      + eapply wreach_spawn_dummy; eauto.
-      + rewrite app_length. cbn [length]. lia. }
-  destruct HX as [->|(second & changed & -> & R2 & L2)]; [left; reflexivity|].
+      rewrite E2. cbn [bind]. right. exists s2, (changed0 ++ [nv]).
+      split; [reflexivity|]. split; [eapply wreach_spawn_dummy; eauto|]. split; [rewrite app_length; cbn [length]; lia|].
+      (* decompose the two-step operation *)
+      pose proof E2 as E2'. unfold spawn_to_replace_dummy, spawn_vehicle_to_replace_dummy_tour in E2'.
+      rewrite Gd in E2'. destruct (negb (forallb _ (t_nodes dt))) eqn:Cm in E2'; [discriminate|]. cbn [bind] in E2'.
+      apply negb_false_iff in Cm.
+      destruct (delete_dummy first d) as [s1| | |] eqn:E1; cbn [bind] in E2'; try discriminate E2'.
+      pose proof (delete_dummy_usage first d s1 E1) as Us1.
+      assert (HDn : is_depot (nd nw (hd (SD 0) (t_nodes dt))) = false).
+      { pose proof (DT_first_nondep dt DTd) as Q. unfold first_node, nth_node in Q. rewrite <- hd_nth0 in Q. exact Q. }
+      assert (Vs2 : nv = Veh (s_counter s1) /\ s_vehicles s2 = vset nv ty (s_vehicles s1) /\ s_vehicles s1 = s_vehicles first).
+      { split; [|split].
+        - unfold spawn_vehicle_for_path in E2'. destruct (negb _) in E2'; [discriminate|].
+          mon E2'. mon E2'. mon E2'. monp E2'. mon E2'. monp E2'. inversion E2'; subst; reflexivity.
+        - unfold spawn_vehicle_for_path in E2'. destruct (negb _) in E2'; [discriminate|].
+          mon E2'. mon E2'. mon E2'. monp E2'. mon E2'. monp E2'. inversion E2'; subst; reflexivity.
+        - unfold delete_dummy in E1. destruct (negb _) in E1; [discriminate|]. mon E1. inversion E1; subst. reflexivity. }
+      destruct Vs2 as (Env & Vs2 & Vs1).
+      split; [|split].
+      + assert (Key : is_vehicle s r = true -> r <> nv -> is_vehicle s2 r = true ->
+                      vget r (s_vehicles s2) = vget nv (s_vehicles s2)).
+        { intros Vr0 Nrv Vr2. rewrite Vs2, !vget_vset, vid_eqb_refl. apply vid_eqb_neq in Nrv. rewrite Nrv.
+          unfold is_vehicle in Vr2. rewrite Vs2, vget_vset, Nrv, Vs1 in Vr2.
+          destruct (vget r (s_vehicles first)) as [a|] eqn:Ga1; [|discriminate]. rewrite Vs1, Ga1. f_equal.
+          pose proof (override_veh_sub _ _ _ _ _ _ Eo r a Ga1) as Ga0.
+          apply (dummy_type s seg p r first d dt a ty R Eo Gd Ga0).
+          rewrite forallb_forall in Cm. exact Cm. }
+        intros x y Hx Hy Vx Vy. apply in_app_or in Hx. apply in_app_or in Hy.
+        destruct Hx as [Hx|[<-|[]]]; destruct Hy as [Hy|[<-|[]]].
+        * destruct (C0 _ Hx) as [-> _]. destruct (C0 _ Hy) as [-> _]. reflexivity.
+        * destruct (C0 _ Hx) as [-> Vr0]. destruct (vid_eq_dec r nv) as [->|Nrv]; [reflexivity|]. apply Key; auto.
+        * destruct (C0 _ Hy) as [-> Vr0]. destruct (vid_eq_dec r nv) as [->|Nrv]; [reflexivity|]. symmetry. apply Key; auto.
+        * reflexivity.
+      + intros K. unfold FullLimits.
+        destruct (spawn_add nw s1 ty (t_nodes dt) s2 nv E2' HDn) as (sd & A & Cs).
+        rewrite Us1 in A, Cs. eapply FLu_add; [apply (FL1 K)|exact A|exact Cs].
+      + intros K. eapply (spawn_dummy_FKs nw DLI first d ty s2 nv); eauto; [apply (ws_inv nw first W1)|apply (ws_T nw first W1)]. }
+  destruct HX as [->|(second & changed & -> & R2 & L2 & ST & FL2 & FK2)]; [left; reflexivity|].
   cbn [bind]. right.
-  exists second, (dedup_v (filter (fun v => is_vehicle second v) changed)). repeat split.
-  - exact R2.
+  exists second, (dedup_v (filter (fun v => is_vehicle second v) changed)).
+  split; [exact R2|]. split; [|split; [|split; [|split; [|split; [exact FL2|split; [exact FK2|reflexivity]]]]]].
   - apply dedup_v_short. pose proof (filter_length_le (fun v => is_vehicle second v) changed). lia.
   - intros v Hv. apply dedup_v_in in Hv. apply filter_In in Hv. tauto.
   - pose proof (dedup_v_length (filter (fun v => is_vehicle second v) changed)).
     pose proof (filter_length_le (fun v => is_vehicle second v) changed). lia.
+  - intros a b Ha Hb Va Vb. apply dedup_v_in in Ha, Hb. apply filter_In in Ha, Hb. apply ST; tauto.
 Qed.
 End PX.
 Print Assumptions path_exchange_pre.
@@ -2069,7 +2358,7 @@ End NPB_px.
 
 Module NPB_mt.
 Import Sorted.
-Import Base BaseFacts Network NetSpec NetFacts Tour TourSpec TourStmts TourFacts TourValidFacts TourExactStmts TourExactFacts Transition TransSpec Schedule SchedInv SchedObs SchedStruct SchedCostsFacts SchedUnservedFacts SchedViolFacts SchedListFacts SchedToursFacts SchedFormLimFacts SchedUsageFacts SchedFormsFacts SchedTransFacts SchedExactFacts Swaps SwapsStmts SwapsFacts SwapsStmts2 SwapsFacts2 PipelineSched RenderStmts NoPanicStmts NPB_defs NPB_base NPB_sched NPB_tour NPB_trans NPB_seg NPB_utours NPB_spawn NPB_fit NPB_over NPB_fitre NPB_px.
+Import Base BaseFacts Network NetSpec NetFacts Tour TourSpec TourStmts TourFacts TourValidFacts TourExactStmts TourExactFacts Transition TransSpec Schedule SchedInv SchedObs SchedStruct SchedCostsFacts SchedUnservedFacts SchedViolFacts SchedListFacts SchedToursFacts SchedFormLimFacts SchedUsageFacts SchedFormsFacts SchedTransFacts SchedExactFacts Swaps SwapsStmts SwapsFacts SwapsStmts2 SwapsFacts2 PipelineSched RenderStmts NoPanicStmts DepotStmts DepotFacts EndToEndStmts EndToEndFacts NPB_defs NPB_base NPB_sched NPB_tour NPB_trans NPB_seg NPB_utours NPB_spawn NPB_fit NPB_over NPB_fitre NPB_lim NPB_px.
 (* NPB_mt.v — add_path_to_vehicle_tour and spawn_vehicle_for_maintenance *)
 
 
@@ -2082,6 +2371,7 @@ Hypothesis DF : dists_finite_b nw = true.
 Hypothesis DH : dh_dists_finite_b nw = true.
 Hypothesis U : unsigned_ok nw.
 Hypothesis CA : cov_all nw.
+Hypothesis DLI : depot_lists nw.
 Let WF := nf_wf nw NF.
 Let DP := nf_dp nw NF.
 Let ML := nf_ml nw NF.
@@ -2135,20 +2425,63 @@ Qed.
 Lemma maint_node_coverable m : In m (nw_maint nw) -> In m (coverable_nodes nw).
 Proof. intros H. unfold coverable_nodes. apply in_or_app. now right. Qed.
 
+(* the nodes displaced from a real tour by a single activity node start at an inner node of the tour *)
+Lemma conflict_head_nondep s v m s' rp :
+  SchedCostsFacts.Inv nw s -> TIs nw s -> is_depot (nd nw m) = false ->
+  add_path_to_vehicle_tour nw s v [m] = Ok (s', Some rp) -> is_depot (nd nw (hd (SD 0) rp)) = false.
+Proof.
+  intros I T Dm H.
+  assert (VP : valid_path nw [m]) by (apply single_valid_path; exact Dm).
+  pose proof (add_path_conflict_valid nw WF DP s v [m] s' rp I T VP H) as VR.
+  unfold add_path_to_vehicle_tour in H.
+  match type of H with (if ?b then _ else _) = _ => destruct b eqn:CK; [discriminate|] end.
+  mon H. mon H. monp H. mon H. monp H. monp H. mon H. mon H. monp H. inversion H; subst s' o; clear H.
+  apply unwrap_opt_ok in E2.
+  destruct T as [TR TD]. destruct (TR _ _ E2) as (ty & Gty & R).
+  pose proof (RT_TV _ _ _ R) as V. pose proof (TV_connected _ _ V) as C. pose proof (TV_nonempty _ _ V) as NE.
+  destruct R as (Dr & RVt & _).
+  destruct (insert_path_nodes _ _ _ _ _ E3) as (sp & ep & removed & p1 & IN & Er & _).
+  destruct (insert_nodes_ref_at nw WF DP (t_dummy a1) (t_nodes a1) [m] NE (connected_chrono nw WF DP _ C) VP)
+    as (sp' & ep' & p1' & IN').
+  rewrite IN in IN'. injection IN' as _ _ _ Q2 _.
+  symmetry in Er. apply path_new_trusted_some in Er. destruct Er as [-> _].
+  rewrite Dr in Q2. unfold ref_insert in Q2. cbn [snd hd last] in Q2.
+  change (nid_is_depot nw m) with (is_depot (nd nw m)) in Q2. rewrite Dm in Q2.
+  set (tl1 := t_nodes a1) in *.
+  set (ka := longest_prefix_reaching nw tl1 m) in *. set (kb := first_reached_by nw tl1 m) in *.
+  pose proof (RV_length nw tl1 RVt) as L3.
+  destruct RVt as (_ & _ & Sd & Ed & _).
+  assert (A1 : (1 <= ka)%nat).
+  { apply (lpr_ge nw tl1 m 0 (hd (SD 0) tl1)).
+    - destruct tl1; [congruence|reflexivity].
+    - apply cr_from_sdep; [exact Sd|]. apply nondep_not_sdep. exact Dm. }
+  assert (B1 : (kb <= length tl1 - 1)%nat).
+  { apply (frb_le_k nw tl1 m (length tl1 - 1) (last tl1 (SD 0))).
+    - apply nth_error_last. exact NE.
+    - apply cr_to_edep; [exact Ed|]. change (node_is_depot nw m = false) in Dm. apply nondep_split in Dm. tauto. }
+  assert (NR : removed <> []) by (destruct VR as (N & _); exact N).
+  assert (AB : (ka < kb)%nat).
+  { destruct (Nat.lt_ge_cases ka kb) as [Q|Q]; [exact Q|]. exfalso. apply NR. rewrite Q2.
+    replace (kb - ka)%nat with 0%nat by lia. reflexivity. }
+  assert (HD : hd (SD 0) removed = nth ka tl1 (SD 0)).
+  { rewrite Q2. pose proof (hd_skipn tl1 ka (SD 0)) as HS. destruct (skipn ka tl1) as [|x xs] eqn:S0.
+    - exfalso. apply NR. rewrite Q2. now rewrite firstn_nil.
+    - cbn [hd] in HS. rewrite <- HS. destruct (kb - ka)%nat eqn:Z0; [lia|]. reflexivity. }
+  rewrite HD. apply (inner_nondep nw tl1 ka C A1). lia.
+Qed.
+
 (* spawn_vehicle_for_maintenance on an enumerated candidate (a listed slot with a free track, a real vehicle): either
    it is refused, or everything up to the final improve_and_recompute succeeds *)
 Theorem maint_pre s m v :
   wreachable nw s -> In m (nw_maint nw) -> is_vehicle s v = true ->
   (forall occ, nget m (s_forms s) = Some occ -> Z.of_nat (length occ) < track_count nw m) ->
-  (* room for the vehicle that takes over the nodes displaced by the maintenance slot *)
-  (forall s2 path ty f, add_path_to_vehicle_tour nw s v [m] = Ok (s2, Some path) -> vget v (s_vehicles s) = Some ty ->
-     hd_error path = Some f -> exists dep, find_best_start_depot nw (s_usage s2) ty f = Ok dep) ->
   spawn_vehicle_for_maintenance nw s m v = Err \/
   exists s3 ch, wreachable nw s3 /\ NoDup ch /\ (forall x, In x ch -> is_vehicle s3 x = true) /\
-    (length ch <= 2)%nat /\
+    (length ch <= 2)%nat /\ SameTyL s3 ch /\
+    (FullLimits nw s -> FullLimits nw s3) /\ (FKs nw s -> FKs nw s3) /\
     spawn_vehicle_for_maintenance nw s m v = match improve_and_recompute nw s3 ch with Err => Panic | x => x end.
 Proof.
-  intros R Hm Hv Free Room.
+  intros R Hm Hv Free.
   pose proof (wreachable_WS nw NF DF DH s R) as W.
   destruct (veh_facts nw s v (ws_inv nw s W) (ws_L nw s W) (ws_T nw s W) Hv) as (ty & t & Gty & Ht & Gt & _ & Dv).
   unfold spawn_vehicle_for_maintenance. rewrite Ht. cbn [bind].
@@ -2166,35 +2499,55 @@ Proof.
   rewrite E2. cbn [bind].
   pose proof (wreach_add_path nw s v [m] s2 conflict R VM E2) as R2.
   pose proof (wreachable_WS nw NF DF DH s2 R2) as W2.
-  assert (Hv2 : is_vehicle s2 v = true).
-  { unfold add_path_to_vehicle_tour in E2.
-    match type of E2 with (if ?b then _ else _) = _ => destruct b; [discriminate|] end.
-    mon E2. mon E2. monp E2. mon E2. monp E2. monp E2. mon E2. mon E2. monp E2. inversion E2; subst; clear E2.
-    unfold is_vehicle. cbn [with_fields s_vehicles]. now rewrite Gty. }
+  assert (Vs2 : s_vehicles s2 = s_vehicles s).
+  { pose proof E2 as E2'. unfold add_path_to_vehicle_tour in E2'.
+    match type of E2' with (if ?b then _ else _) = _ => destruct b; [discriminate|] end.
+    mon E2'. mon E2'. monp E2'. mon E2'. monp E2'. monp E2'. mon E2'. mon E2'. monp E2'. inversion E2'; subst; clear E2'.
+    reflexivity. }
+  assert (Hv2 : is_vehicle s2 v = true) by (unfold is_vehicle; rewrite Vs2, Gty; reflexivity).
+  assert (Dm : is_depot (nd nw m) = false).
+  { destruct VM as (_ & _ & Ex). cbn [existsb] in Ex. rewrite orb_false_r in Ex. apply negb_true_iff in Ex. exact Ex. }
+  assert (HOm : head_ok nw [m]).
+  { intros Q. cbn [hd] in Q. change (node_is_depot nw m) with (is_depot (nd nw m)) in Q. congruence. }
+  assert (FL2 : FullLimits nw s -> FullLimits nw s2).
+  { unfold FullLimits. apply FLu_le. eapply (add_path_le nw WF DP s v [m] s2 conflict); eauto;
+      [apply (ws_inv nw s W)|apply (ws_T nw s W)]. }
+  assert (FK2 : FKs nw s -> FKs nw s2).
+  { intros K. eapply (add_path_FKs nw WF DP s v [m] s2 conflict); eauto; [apply (ws_inv nw s W)|apply (ws_T nw s W)]. }
   destruct conflict as [path|].
   - assert (VPp : valid_path nw path).
     { eapply (add_path_conflict_valid nw WF DP s v [m] s2 path); eauto; [apply (ws_inv nw s W)|apply (ws_T nw s W)]. }
     assert (NEp : path <> []) by (destruct VPp as [N _]; exact N).
+    pose proof (conflict_head_nondep s v m s2 path (ws_inv nw s W) (ws_T nw s W) Dm E2) as HDp.
     destruct (nc_cases _ (spawn_nc nw s2 ty path CA (ws_inv nw s2 W2) (ws_L nw s2 W2) (ws_trans nw s2 W2) (ws_us nw s2 W2)
-                (ws_forms nw s2 W2) (veh_type_in_ids nw s v ty (ws_L nw s W) Gty) NEp
-                (fun f Hf _ => Room s2 path ty f E2 Gty Hf))) as [->|[[s3 nv] E3]]; [left; reflexivity|].
+                (ws_forms nw s2 W2) (veh_type_in_ids nw s v ty (ws_L nw s W) Gty) NEp)) as [->|[[s3 nv] E3]]; [left; reflexivity|].
     rewrite E3. cbn [bind]. right. exists s3, [v; nv].
     pose proof (wreach_spawn nw s2 ty path s3 nv R2 VPp E3) as R3.
     assert (Q : nv = Veh (s_counter s2) /\ s_vehicles s3 = vset nv ty (s_vehicles s2)).
-    { unfold spawn_vehicle_for_path in E3. destruct (negb _) in E3; [discriminate|].
-      mon E3. mon E3. mon E3. monp E3. mon E3. monp E3. inversion E3; subst; clear E3. cbn [with_fields s_vehicles]. auto. }
-    destruct Q as [-> Q].
-    assert (Nv : v <> Veh (s_counter s2)).
-    { intros ->. pose proof (fresh_vehicle nw s2 (ws_inv nw s2 W2) (proj1 (ws_L nw s2 W2))) as Fr.
+    { pose proof E3 as E3'. unfold spawn_vehicle_for_path in E3'. destruct (negb _) in E3'; [discriminate|].
+      mon E3'. mon E3'. mon E3'. monp E3'. mon E3'. monp E3'. inversion E3'; subst; clear E3'. cbn [with_fields s_vehicles]. auto. }
+    destruct Q as [Env Q].
+    assert (Nv : v <> nv).
+    { intros ->. rewrite Env in Hv2. pose proof (fresh_vehicle nw s2 (ws_inv nw s2 W2) (proj1 (ws_L nw s2 W2))) as Fr.
       unfold is_vehicle in Hv2. rewrite Fr in Hv2. discriminate. }
-    repeat split; auto.
+    assert (Tv : vget v (s_vehicles s3) = Some ty).
+    { rewrite Q, vget_vset. apply vid_eqb_neq in Nv. rewrite Nv, Vs2. exact Gty. }
+    assert (Tn : vget nv (s_vehicles s3) = Some ty) by (rewrite Q, vget_vset, vid_eqb_refl; reflexivity).
+    split; [exact R3|]. split; [|split; [|split; [|split; [|split; [|split; [|reflexivity]]]]]].
     + repeat constructor; cbn; intuition.
-    + intros x [<-|[<-|[]]]; unfold is_vehicle; rewrite Q, vget_vset.
-      * apply vid_eqb_neq in Nv. rewrite Nv. exact Hv2.
-      * now rewrite vid_eqb_refl.
-  - cbn [bind]. right. exists s2, [v]. repeat split; auto.
+    + intros x [<-|[<-|[]]]; unfold is_vehicle; [rewrite Tv|rewrite Tn]; reflexivity.
+    + cbn. lia.
+    + intros x y [<-|[<-|[]]] [<-|[<-|[]]] _ _; congruence.
+    + intros K. unfold FullLimits. destruct (spawn_add nw s2 ty path s3 nv E3 HDp) as (sd & A & Cs).
+      eapply FLu_add; [apply (FL2 K)|exact A|exact Cs].
+    + intros K. eapply (spawn_FKs nw DLI s2 ty path s3 nv); eauto.
+      intros Qd. change (node_is_depot nw (hd (SD 0) path)) with (is_depot (nd nw (hd (SD 0) path))) in Qd. congruence.
+  - cbn [bind]. right. exists s2, [v].
+    split; [exact R2|]. split; [|split; [|split; [|split; [|split; [exact FL2|split; [exact FK2|reflexivity]]]]]].
     + repeat constructor. intros [].
     + intros x [<-|[]]. exact Hv2.
+    + cbn. lia.
+    + apply (SameTyL_single s2 [v] v). intros x [<-|[]]. reflexivity.
 Qed.
 End MT.
 Print Assumptions add_path_nc.
@@ -2298,106 +2651,268 @@ Qed.
 End Cand.
 End NPB_cand.
 
-Module NPB_main.
+Module NPB_imp.
 Import Sorted.
-Import Base BaseFacts Network NetSpec NetFacts Tour TourSpec TourStmts TourFacts TourValidFacts TourExactStmts TourExactFacts Transition TransSpec Schedule SchedInv SchedObs SchedStruct SchedCostsFacts SchedUnservedFacts SchedViolFacts SchedListFacts SchedToursFacts SchedFormLimFacts SchedUsageFacts SchedFormsFacts SchedTransFacts SchedExactFacts Swaps SwapsStmts SwapsFacts SwapsStmts2 SwapsFacts2 PipelineSched RenderStmts NoPanicStmts NPB_defs NPB_base NPB_sched NPB_tour NPB_trans NPB_seg NPB_utours NPB_spawn NPB_fit NPB_over NPB_fitre NPB_px NPB_mt NPB_cand.
-(* NPB_main.v — the no-crash theorems for the enumerated CExch / CMaint candidates *)
+Import Base BaseFacts Network NetSpec NetFacts Tour TourSpec TourStmts TourFacts TourValidFacts TourExactStmts TourExactFacts Transition TransSpec Schedule SchedInv SchedObs SchedStruct SchedCostsFacts SchedUnservedFacts SchedViolFacts SchedListFacts SchedToursFacts SchedFormLimFacts SchedUsageFacts SchedFormsFacts SchedTransFacts SchedExactFacts Swaps SwapsStmts SwapsFacts SwapsStmts2 SwapsFacts2 PipelineSched RenderStmts NoPanicStmts DepotStmts DepotFacts EndToEndStmts EndToEndFacts NoPanicFactsA NPB_defs NPB_lim.
+(* NPB_imp.v — improve_depots / improve_and_recompute succeed for the lists the swaps pass (at most two vehicles of one
+   type) on a schedule within the depot limits (overflow depot included) whose tours start at listed depots: every
+   listed vehicle's own released place is available again, and a vehicle of the SAME type cannot take a place away
+   that the other one needs without leaving its own *)
 
 
 Local Open Scope Z_scope.
 
-Section Main.
+Lemma z_sum_dec {A} (f g : A -> Z) (x0 : A) (k : Z) (l : list A) :
+  0 <= k -> (forall x, In x l -> f x <= g x) -> In x0 l -> f x0 + k <= g x0 ->
+  z_sum (map f l) + k <= z_sum (map g l).
+Proof.
+  intros K. induction l as [|a l IH]; intros H Hin Hk; [destruct Hin|]. cbn [map]. rewrite !z_sum_cons.
+  assert (R : z_sum (map f l) <= z_sum (map g l)).
+  { clear IH Hin. induction l as [|b l IHl]; [cbn; lia|]. cbn [map]. rewrite !z_sum_cons.
+    pose proof (H b (or_intror (or_introl eq_refl))). 
+    assert (z_sum (map f l) <= z_sum (map g l)); [|lia]. apply IHl. intros x [->|Hx]; apply H; [left|right; right]; auto. }
+  destruct Hin as [->|Hin].
+  - lia.
+  - pose proof (H a (or_introl eq_refl)). specialize (IH (fun x Hx => H x (or_intror Hx)) Hin Hk). lia.
+Qed.
+
+Section Imp.
 Variable nw : network.
 Hypothesis NF : net_fine nw.
-Hypothesis DF : dists_finite_b nw = true.
-Hypothesis DH : dh_dists_finite_b nw = true.
-Hypothesis U : unsigned_ok nw.
-Hypothesis CA : cov_all nw.
+Hypothesis NX : net_extra_b nw = true.
+Notation idx := (get_depot_idx nw).
+Notation sst := spawned_same_type.
+Notation SDL := (nw_sdepots nw).
 
-(* the part of the other prover (NoPanicFactsA.v): improve_and_recompute SUCCEEDS (the swaps turn its Err into a
-   panic, so no_crash alone would not do) under some room condition [RoomIR] *)
-Variable RoomIR : schedule -> list vehicle_id -> Prop.
-Hypothesis IR : forall s changed, wreachable nw s -> RoomIR s changed -> NoDup changed ->
-  (forall v, In v changed -> is_vehicle s v = true) -> exists s', improve_and_recompute nw s changed = Ok s'.
-
-Lemma final_step_nc second ch : wreachable nw second -> RoomIR second ch -> NoDup ch ->
-  (forall v, In v ch -> is_vehicle second v = true) ->
-  no_crash (match improve_and_recompute nw second ch with Err => Panic | x => x end).
-Proof. intros R RM N V. destruct (IR second ch R RM N V) as [s' ->]. apply nc_ok. Qed.
-
-(** B1: path_exchange on an enumerated candidate *)
-Theorem path_exchange_nc_enumerated s cs seg p r :
-  wreachable nw s -> candidates nw s = Ok cs -> In (CExch seg p r) cs ->
-  (forall first d ty s1 t f, override_reassign nw s seg p r = Ok (first, Some d) ->
-     is_vehicle_or_dummy first p = false -> vget p (s_vehicles s) = Some ty ->
-     delete_dummy first d = Ok s1 -> vget d (s_dummies first) = Some t -> hd_error (t_nodes t) = Some f ->
-     exists dep, find_best_start_depot nw (s_usage s1) ty f = Ok dep) ->
-  (forall second ch, wreachable nw second -> (length ch <= 2)%nat -> RoomIR second ch) ->
-  no_crash (path_exchange nw s seg p r).
+Lemma can_spawn_intro U sd ty : capacity_of nw (idx sd) ty <> 0 ->
+  sst U (idx sd) ty < capacity_of nw (idx sd) ty -> spawned_total nw U (idx sd) < total_capacity_of nw (idx sd) ->
+  can_depot_spawn nw U sd ty = true.
 Proof.
-  intros R Ec Hin Room RoomI.
-  pose proof (wreachable_WS nw NF DF DH s R) as W.
-  pose proof (candidates_inv nw s cs _ Ec Hin) as ((sg & Esg & Hseg) & Hr & Npr).
-  destruct (segments_ok nw s p sg Esg) as (tp & Htp & Hok).
-  destruct (listed_has_tour nw s r (ws_inv nw s W) (ws_L nw s W) Hr) as [trc Htr].
-  destruct (path_exchange_pre nw NF DF DH U CA s seg p r tp trc R Htp (Hok seg Hseg) Htr Room)
-    as [->|(second & ch & R2 & N2 & V2 & L2 & ->)]; [apply nc_err|].
-  apply final_step_nc; auto.
+  intros H0 H1 H2. unfold can_depot_spawn. cbv zeta.
+  destruct (Z.eqb_spec (capacity_of nw (idx sd) ty) 0); [contradiction|].
+  destruct (Z.leb_spec (capacity_of nw (idx sd) ty) (sst U (idx sd) ty)); [lia|].
+  destruct (Z.leb_spec (total_capacity_of nw (idx sd)) (spawned_total nw U (idx sd))); [lia|]. reflexivity.
 Qed.
 
-(** B2: spawn_vehicle_for_maintenance on an enumerated candidate *)
-Theorem maintenance_nc_enumerated s cs m v :
-  wreachable nw s -> candidates nw s = Ok cs -> In (CMaint m v) cs ->
-  (forall s2 path ty f, add_path_to_vehicle_tour nw s v [m] = Ok (s2, Some path) -> vget v (s_vehicles s) = Some ty ->
-     hd_error path = Some f -> exists dep, find_best_start_depot nw (s_usage s2) ty f = Ok dep) ->
-  (forall second ch, wreachable nw second -> (length ch <= 2)%nat -> RoomIR second ch) ->
-  no_crash (spawn_vehicle_for_maintenance nw s m v).
+Lemma find_ok u ty : (exists sd, In sd SDL /\ can_depot_spawn nw u sd ty = true) ->
+  forall first, exists d, find_best_start_depot nw u ty first = Ok d /\ In d SDL.
 Proof.
-  intros R Ec Hin Room RoomI.
-  pose proof (wreachable_WS nw NF DF DH s R) as W.
-  pose proof (candidates_inv nw s cs _ Ec Hin) as (Hm & Hv & Hf).
-  apply (iter_all_vehicle nw s v (ws_L nw s W)) in Hv.
-  destruct (maint_pre nw NF DF DH U CA s m v R Hm Hv) as [->|(s3 & ch & R3 & N3 & V3 & L3 & ->)]; [| exact Room | apply nc_err |].
-  - intros occ G. rewrite G in Hf. exact Hf.
-  - apply final_step_nc; auto.
+  intros (sd & Hin & C) first. unfold find_best_start_depot, start_depots_sorted_by_distance_to.
+  match goal with |- context [find ?f ?l] => destruct (find f l) as [d|] eqn:E end.
+  - apply find_some in E. destruct E as [Hd _]. apply sort_by_in in Hd. exists d. split; [reflexivity|exact Hd].
+  - exfalso. pose proof (find_none _ _ E sd) as Q. rewrite sort_by_in in Q. specialize (Q Hin). cbn beta in Q. congruence.
 Qed.
 
-(** in the shape of stmt_apply_cand_no_crash / stmt_neighbors_no_crash, for the two candidate kinds of this file:
-    room in every wreachable schedule *)
-Theorem apply_cand_exch_maint_no_crash s cs c :
-  wreachable nw s -> (forall s', wreachable nw s' -> SpawnRoom nw s') ->
-  (forall second ch, wreachable nw second -> (length ch <= 2)%nat -> RoomIR second ch) ->
-  candidates nw s = Ok cs -> In c cs -> is_exch c || is_maintc c = true -> no_crash (apply_cand nw s c).
+(* total of a depot when one type's count drops by k *)
+Lemma total_dec U' U d ty k : 0 <= k -> ULe U' U -> In ty (type_ids nw) -> sst U' d ty + k <= sst U d ty ->
+  spawned_total nw U' d + k <= spawned_total nw U d.
 Proof.
-  intros R SR RoomI Ec Hin K.
-  pose proof (wreachable_WS nw NF DF DH s R) as W.
-  destruct c as [m v|seg p r|n v|n v]; cbn in K; try discriminate K; cbn [apply_cand].
-  - eapply maintenance_nc_enumerated; eauto.
-    intros s2 path ty f E2 Gty Hf. apply (SR s2).
-    + destruct (candidates_inv nw s cs _ Ec Hin) as (Hm & Hv & Hfr).
-      assert (Km : nget m (s_forms s) <> None).
-      { apply nget_key_ne. apply (fo_keys nw s (ws_forms nw s W)). now apply maint_node_coverable. }
-      destruct (nget m (s_forms s)) as [occ|] eqn:Gocc; [|congruence].
-      eapply wreach_add_path; [exact R| |exact E2].
-      eapply formed_node_valid_path; [exact (nf_ml nw NF)|apply wreachable_reachable; exact R|exact Gocc].
-    + eapply veh_type_in_ids; [exact (ws_L nw s W)|exact Gty].
-  - eapply path_exchange_nc_enumerated; eauto.
-    intros first d ty s1 t f Eo _ Gty Hd _ _.
-    rewrite (delete_dummy_usage first d s1 Hd). apply (SR first).
-    + eapply wreach_override; eauto.
-    + eapply veh_type_in_ids; [exact (ws_L nw s W)|exact Gty].
+  intros K L Hty H. unfold spawned_total. apply (z_sum_dec _ _ ty k); auto.
 Qed.
-End Main.
-Print Assumptions path_exchange_nc_enumerated.
-Print Assumptions maintenance_nc_enumerated.
-Print Assumptions apply_cand_exch_maint_no_crash.
-End NPB_main.
+
+Section S.
+Variable s : schedule.
+Hypothesis G : GoodI nw s.
+Hypothesis FL : FullLimits nw s.
+Hypothesis FK : FKs nw s.
+
+(* one release step, by counts *)
+Lemma step1_cnt u v ty t :
+  vget v (s_vehicles s) = Some ty -> vget v (s_tours s) = Some t -> RV nw (t_nodes t) ->
+  (forall d' ty', NoDup (sp_of u d' ty')) ->
+  In v (sp_of u (idx (first_node t)) ty) -> In v (de_of u (idx (last_node t)) ty) ->
+  exists u2, imp_step1 nw s (Ok u) v = Ok u2 /\ ULe u2 u /\
+    sst u2 (idx (first_node t)) ty + 1 <= sst u (idx (first_node t)) ty /\
+    (forall d' ty', NoDup (sp_of u2 d' ty')) /\
+    (forall x d' ty', x <> v -> In x (sp_of u d' ty') -> In x (sp_of u2 d' ty')) /\
+    (forall x d' ty', x <> v -> In x (de_of u d' ty') -> In x (de_of u2 d' ty')).
+Proof.
+  intros Hv Ht R ND Isp Ide.
+  destruct (step1_total nw s u v ty t Hv Ht R Isp Ide) as (u2 & E & S2 & D2).
+  exists u2. split; [exact E|]. split; [|split; [|split; [|split]]].
+  - intros d' ty'. rewrite !nsp_len, S2. destruct (pair_eqb _ _) eqn:Q; [|lia].
+    apply pair_eqb_dec in Q. destruct Q as [-> ->].
+    pose proof (set_del_len v (sp_of u (idx (first_node t)) ty)). lia.
+  - rewrite !nsp_len, S2, pair_eqb_refl.
+    pose proof (set_del_len_in v _ (ND (idx (first_node t)) ty) Isp). lia.
+  - intros d' ty'. rewrite S2. destruct (pair_eqb _ _); [apply set_del_nodup|]; apply ND.
+  - intros x d' ty' Nx Hx. rewrite S2. destruct (pair_eqb _ _) eqn:Q; [|exact Hx].
+    apply pair_eqb_dec in Q. destruct Q as [-> ->]. apply set_del_in. auto.
+  - intros x d' ty' Nx Hx. rewrite D2. destruct (pair_eqb _ _) eqn:Q; [|exact Hx].
+    apply pair_eqb_dec in Q. destruct Q as [-> ->]. apply set_del_in. auto.
+Qed.
+
+(* one re-homing step *)
+Lemma step2_ok tours u costs v ty t :
+  vget v (s_vehicles s) = Some ty -> In ty (type_ids nw) -> vget v (s_tours s) = Some t -> tour_of s v = Ok t ->
+  t_dummy t = false -> RV nw (t_nodes t) -> tour_exact nw t ->
+  (exists sd, In sd SDL /\ can_depot_spawn nw u sd ty = true) -> t_costs t <= costs ->
+  exists nt c, imp_step2 nw s (Ok (tours, u, costs)) v =
+                 Ok (vset v nt tours,
+                     usage_add_despawn (usage_add_spawn u (idx (first_node nt)) ty v) (idx (last_node nt)) ty v, c) /\
+    c = costs + t_costs nt - t_costs t /\ 0 <= t_costs nt /\ can_depot_spawn nw u (first_node nt) ty = true.
+Proof.
+  intros Hv Ity Ht Hto D R EX Room CO.
+  unfold imp_step2. cbn [bind]. rewrite Hto. unfold vehicle_type_of. rewrite Hv. cbn [ok_or_err bind].
+  destruct (idt_total nw NF NX u t ty D R EX (find_ok u ty Room)) as (nt & Ei & Dn & Rn & EXn).
+  rewrite Ei. cbn [bind].
+  pose proof (exact_costs_nn nw NF NX nt EXn) as NNn.
+  destruct (z_sub_cost_total (costs + t_costs nt) (t_costs t)) as (c & -> & Ec); [lia|]. cbn [bind].
+  exists nt, c. split; [reflexivity|]. split; [exact Ec|]. split; [exact NNn|].
+  destruct (improve_tour_first nw u t ty nt Ei) as (fnd & FB). eapply find_best_can_spawn; eauto.
+Qed.
+
+Lemma own_place v ty t : vget v (s_vehicles s) = Some ty -> vget v (s_tours s) = Some t ->
+  In v (sp_of (s_usage s) (idx (first_node t)) ty) ->
+  In (first_node t) SDL /\ 1 <= sst (s_usage s) (idx (first_node t)) ty /\
+  sst (s_usage s) (idx (first_node t)) ty <= capacity_of nw (idx (first_node t)) ty /\
+  spawned_total nw (s_usage s) (idx (first_node t)) <= total_capacity_of nw (idx (first_node t)).
+Proof.
+  intros Hv Ht Isp. split; [apply (FK v t Ht)|]. destruct (FL (idx (first_node t))) as [A B].
+  split; [|split; [apply A|exact B]].
+  rewrite nsp_len. destruct (sp_of (s_usage s) (idx (first_node t)) ty); [destruct Isp|cbn [length]; lia].
+Qed.
+
+Lemma usage_nodup d ty : NoDup (sp_of (s_usage s) d ty).
+Proof. exact (proj1 (uo_nodup nw s (gi_usage nw s G) d ty)). Qed.
+
+(* the improve_depots step for at most two vehicles of one type *)
+Theorem improve_depots_le2 changed :
+  NoDup changed -> (forall v, In v changed -> is_vehicle s v = true) -> (length changed <= 2)%nat ->
+  (forall a b, In a changed -> In b changed -> vget a (s_vehicles s) = vget b (s_vehicles s)) ->
+  exists s', improve_depots nw s (Some changed) = Ok s' /\
+    s_vehicles s' = s_vehicles s /\ s_ids s' = s_ids s /\
+    VPart nw (s_vehicles s) (s_tours s') (s_ids s) /\
+    TOK nw (s_trans s') (tfn nw (s_tours s')) (s_ids s).
+Proof.
+  intros N HV L2 ST. unfold improve_depots. cbv beta iota zeta.
+  match goal with |- exists s', bind (fold_left ?f ?l ?a) _ = _ /\ _ => change f with (imp_step1 nw s) end.
+  (* the two folds, unrolled *)
+  assert (F12 : exists u0 tours' u' costs',
+            fold_left (imp_step1 nw s) changed (Ok (s_usage s)) = Ok u0 /\
+            fold_left (imp_step2 nw s) changed (Ok (s_tours s, u0, s_costs s)) = Ok (tours', u', costs') /\
+            (forall x, vget x tours' = None <-> vget x (s_tours s) = None) /\
+            (forall x, ~ In x changed -> vget x tours' = vget x (s_tours s))).
+  { destruct changed as [|v1 [|v2 [|v3 rest]]]; cbn [length] in L2; try lia.
+    - exists (s_usage s), (s_tours s), (s_usage s), (s_costs s). cbn [fold_left]. repeat split; auto.
+    - (* one vehicle *)
+      destruct (veh_facts nw s G v1 (HV v1 (or_introl eq_refl))) as (ty & t & Hv & Ity & _ & Ht & Hto & _ & D & R & EX & Isp & Ide).
+      destruct (step1_cnt (s_usage s) v1 ty t Hv Ht R usage_nodup Isp Ide) as (u0 & E0 & LE & ST1 & _).
+      destruct (own_place v1 ty t Hv Ht Isp) as (Hsd & P1 & P2 & P3).
+      pose proof (total_dec u0 (s_usage s) (idx (first_node t)) ty 1 ltac:(lia) LE Ity ST1) as TD.
+      destruct (step2_ok (s_tours s) u0 (s_costs s) v1 ty t Hv Ity Ht Hto D R EX) as (nt & c & E2 & _).
+      { exists (first_node t). split; [exact Hsd|]. apply can_spawn_intro; lia. }
+      { apply (tour_cost_le nw NF NX s G v1 t Ht). }
+      eexists u0, _, _, _. cbn [fold_left]. split; [exact E0|]. split; [exact E2|]. split.
+      + intros x. rewrite vget_vset. destruct (vid_eqb x v1) eqn:Q; [|reflexivity].
+        apply vid_eqb_eq in Q. subst. rewrite Ht. split; discriminate.
+      + intros x Hx. rewrite vget_vset. destruct (vid_eqb x v1) eqn:Q; [|reflexivity].
+        apply vid_eqb_eq in Q. subst. exfalso. apply Hx. now left.
+    - (* two vehicles of one type *)
+      inversion N as [|? ? N1 N2]; subst. assert (N12 : v2 <> v1) by (intros ->; apply N1; now left).
+      destruct (veh_facts nw s G v1 (HV v1 (or_introl eq_refl))) as (ty & t1 & Hv1 & Ity & _ & Ht1 & Hto1 & _ & D1 & R1 & EX1 & Isp1 & Ide1).
+      destruct (veh_facts nw s G v2 (HV v2 (or_intror (or_introl eq_refl)))) as (ty2 & t2 & Hv2 & _ & _ & Ht2 & Hto2 & _ & D2 & R2 & EX2 & Isp2 & Ide2).
+      assert (ty2 = ty).
+      { pose proof (ST v1 v2 (or_introl eq_refl) (or_intror (or_introl eq_refl))) as Q. rewrite Hv1, Hv2 in Q. congruence. }
+      subst ty2.
+      set (d1 := idx (first_node t1)) in *. set (d2 := idx (first_node t2)) in *.
+      destruct (step1_cnt (s_usage s) v1 ty t1 Hv1 Ht1 R1 usage_nodup Isp1 Ide1) as (ua & Ea & LEa & STa & NDa & KSa & KDa).
+      destruct (step1_cnt ua v2 ty t2 Hv2 Ht2 R2 NDa (KSa v2 _ _ N12 Isp2) (KDa v2 _ _ N12 Ide2)) as (u0 & Eb & LEb & STb & _).
+      fold d1 in STa. fold d2 in STb.
+      destruct (own_place v1 ty t1 Hv1 Ht1 Isp1) as (Hsd1 & P11 & P12 & P13). fold d1 in P11, P12, P13.
+      destruct (own_place v2 ty t2 Hv2 Ht2 Isp2) as (Hsd2 & P21 & P22 & P23). fold d2 in P21, P22, P23.
+      assert (LE0 : ULe u0 (s_usage s)) by (eapply ULe_trans; eauto).
+      pose proof (LEb d1 ty) as Lb1. pose proof (LEa d2 ty) as La2.
+      (* counts after both releases *)
+      assert (C1 : sst u0 d1 ty + 1 <= sst (s_usage s) d1 ty) by lia.
+      assert (C2 : sst u0 d2 ty + 1 <= sst (s_usage s) d2 ty) by lia.
+      assert (C12 : d1 = d2 -> sst u0 d1 ty + 2 <= sst (s_usage s) d1 ty).
+      { intros Q. rewrite <- Q in STb. lia. }
+      pose proof (total_dec u0 (s_usage s) d1 ty 1 ltac:(lia) LE0 Ity C1) as T1.
+      pose proof (total_dec u0 (s_usage s) d2 ty 1 ltac:(lia) LE0 Ity C2) as T2.
+      assert (T12 : d1 = d2 -> spawned_total nw u0 d1 + 2 <= spawned_total nw (s_usage s) d1).
+      { intros Q. apply (total_dec u0 (s_usage s) d1 ty 2); auto; lia. }
+      (* first vehicle *)
+      destruct (step2_ok (s_tours s) u0 (s_costs s) v1 ty t1 Hv1 Ity Ht1 Hto1 D1 R1 EX1) as (nt1 & c1 & E21 & Ec1 & NN1 & CS1).
+      { exists (first_node t1). split; [exact Hsd1|]. apply can_spawn_intro; fold d1; lia. }
+      { apply (tour_cost_le nw NF NX s G v1 t1 Ht1). }
+      set (u1 := usage_add_despawn (usage_add_spawn u0 (idx (first_node nt1)) ty v1) (idx (last_node nt1)) ty v1) in *.
+      assert (A1 : UAdd u1 u0 (idx (first_node nt1)) ty).
+      { unfold u1. eapply UAdd_ULe_l; [apply UEq_ULe; apply add_despawn_cnt|apply add_spawn_cnt]. }
+      set (e := idx (first_node nt1)) in *.
+      (* second vehicle: a place is left *)
+      assert (Room2 : exists sd, In sd SDL /\ can_depot_spawn nw u1 sd ty = true).
+      { destruct (Z.eq_dec d1 d2) as [Q|Q].
+        - exists (first_node t2). split; [exact Hsd2|]. apply can_spawn_intro; fold d2.
+          + lia.
+          + pose proof (A1 d2 ty). destruct (pair_eqb (d2, ty) (e, ty)); specialize (C12 Q); rewrite Q in C12; lia.
+          + pose proof (total_add nw u1 u0 e ty d2 A1). specialize (T12 Q). rewrite Q in T12. destruct (d2 =? e); lia.
+        - destruct (Z.eq_dec e d2) as [Qe|Qe].
+          + exists (first_node t1). split; [exact Hsd1|]. apply can_spawn_intro; fold d1.
+            * lia.
+            * pose proof (A1 d1 ty) as X. destruct (pair_eqb (d1, ty) (e, ty)) eqn:PE; [|lia].
+              apply pair_eqb_dec in PE. destruct PE as [PE _]. congruence.
+            * pose proof (total_add nw u1 u0 e ty d1 A1) as X. destruct (Z.eqb_spec d1 e); [congruence|lia].
+          + exists (first_node t2). split; [exact Hsd2|]. apply can_spawn_intro; fold d2.
+            * lia.
+            * pose proof (A1 d2 ty) as X. destruct (pair_eqb (d2, ty) (e, ty)) eqn:PE; [|lia].
+              apply pair_eqb_dec in PE. destruct PE as [PE _]. congruence.
+            * pose proof (total_add nw u1 u0 e ty d2 A1) as X. destruct (Z.eqb_spec d2 e); [congruence|lia]. }
+      destruct (step2_ok (vset v1 nt1 (s_tours s)) u1 c1 v2 ty t2 Hv2 Ity Ht2 Hto2 D2 R2 EX2 Room2) as (nt2 & c2 & E22 & _).
+      { (* costs *)
+        destruct (gi_costs _ _ G) as [NK EC]. destruct (gi_exact _ _ G) as [EXA _].
+        pose proof (oc_sum_le [v1; v2] (s_tours s) NK) as Q. cbn [map] in Q. rewrite Ht1, Ht2 in Q.
+        rewrite !z_sum_cons in Q. change (z_sum []) with 0 in Q. fold (tsum (s_tours s)) in EC.
+        destruct (rates_nn nw NX) as (_ & _ & _ & _ & R5 & _).
+        assert (t_costs t1 + (t_costs t2 + 0) <= tsum (s_tours s)); [|lia]. apply Q; [|exact N].
+        intros k t Hin. apply (exact_costs_nn nw NF NX). apply (EXA k). apply in_vget; assumption. }
+      eexists u0, _, _, _. cbn [fold_left]. split; [exact (eq_trans (f_equal (fun r => imp_step1 nw s r v2) Ea) Eb)|].
+      split; [exact (eq_trans (f_equal (fun r => imp_step2 nw s r v2) E21) E22)|]. split.
+      + intros x. rewrite !vget_vset. destruct (vid_eqb x v2) eqn:Q2.
+        * apply vid_eqb_eq in Q2. subst. rewrite Ht2. split; discriminate.
+        * destruct (vid_eqb x v1) eqn:Q1; [|reflexivity]. apply vid_eqb_eq in Q1. subst. rewrite Ht1. split; discriminate.
+      + intros x Hx. rewrite !vget_vset. destruct (vid_eqb x v2) eqn:Q2.
+        * apply vid_eqb_eq in Q2. subst. exfalso. apply Hx. right. now left.
+        * destruct (vid_eqb x v1) eqn:Q1; [|reflexivity]. apply vid_eqb_eq in Q1. subst. exfalso. apply Hx. now left. }
+  destruct F12 as (u0 & tours' & u' & costs' & E0 & E2 & KE & FR).
+  unfold usage_t in E0. rewrite E0. cbn [bind].
+  match goal with |- exists s', bind (fold_left ?f ?l ?a) _ = _ /\ _ => change f with (imp_step2 nw s) end.
+  unfold usage_t in E2. rewrite E2. cbn [bind]. pose proof (vpart nw s G) as VP.
+  assert (VP' : VPart nw (s_vehicles s) tours' (s_ids s)) by (eapply V_same_keys; [exact VP|exact KE]).
+  assert (STb : forall v ty ty', vget v (s_vehicles s) = Some ty -> vget v (s_vehicles s) = Some ty' -> ty = ty') by (intros; congruence).
+  assert (NDf : NoDup (filter vid_is_real changed)) by (apply NoDup_filter; exact N).
+  destruct (update_transitions_total nw s (s_vehicles s) tours' (s_ids s) VP VP' STb (s_trans s) (s_viol s) changed
+              (tok nw s G) NDf) as ([tr vi] & UT).
+  { intros v Hv _. left. apply HV. exact Hv. }
+  rewrite UT. cbn [bind]. eexists. split; [reflexivity|]. cbn [with_fields s_vehicles s_ids s_tours s_trans].
+  split; [reflexivity|]. split; [reflexivity|]. split; [exact VP'|].
+  eapply (update_transitions_T nw s (s_vehicles s) tours' (s_ids s) VP VP' STb); [| | |exact NDf|apply (tok nw s G)|exact UT].
+  - intros v _ Hn. split; [reflexivity|]. apply FR. exact Hn.
+  - apply (real_keys nw s G).
+  - apply (real_keys nw s G).
+Qed.
+
+Theorem improve_and_recompute_le2 changed :
+  NoDup changed -> (forall v, In v changed -> is_vehicle s v = true) -> (length changed <= 2)%nat ->
+  (forall a b, In a changed -> In b changed -> vget a (s_vehicles s) = vget b (s_vehicles s)) ->
+  exists s', improve_and_recompute nw s changed = Ok s'.
+Proof.
+  intros N HV L2 ST. eapply improve_and_recompute_from_depots; eauto.
+  apply improve_depots_le2; auto.
+Qed.
+End S.
+End Imp.
+Print Assumptions improve_and_recompute_le2.
+End NPB_imp.
 
 Module NPB_wit.
 Import Sorted.
 Import Base BaseFacts Network NetSpec NetFacts Tour TourSpec TourStmts TourFacts TourValidFacts TourExactStmts TourExactFacts Transition TransSpec Schedule SchedInv SchedObs SchedStruct SchedCostsFacts SchedListFacts SchedToursFacts Swaps SwapsStmts SwapsFacts SwapsStmts2 SwapsFacts2 PipelineSched RenderStmts NoPanicStmts NPB_defs NPB_base.
-(* NPB_wit.v — witness: without room in the depots, an ENUMERATED candidate panics (find_best_start_depot .expect),
-   on a schedule reached from a one-vehicle schedule by nine enumerated, successful local-search moves *)
+(* NPB_wit.v — regression example for the repaired defect "a spawn without any free depot panicked": a schedule reached
+   from a one-vehicle schedule by nine enumerated, successful local-search moves has ALL depots full, the overflow
+   depot included.  Before the repair the enumerated candidate CMaint panicked there
+   (find_best_start_depot_for_spawning .expect("There should be at least the overflow depot available"), confirmed on
+   the code); now the spawn is refused and the candidate is dropped. *)
 
 
 Local Open Scope Z_scope.
@@ -2523,31 +3038,30 @@ Proof.
   intros SR. destruct (SR 0 (SV 4)) as [d Hd]; [vm_compute; auto|]. vm_compute in Hd. discriminate.
 Qed.
 
-(* the enumerated candidate CMaint m v0 panics on s10: its conflict path [a] needs a fifth vehicle *)
-Theorem enumerated_candidate_panics :
-  exists cs c, candidates nwS s10 = Ok cs /\ In c cs /\ apply_cand nwS s10 c = Panic.
+(* the enumerated candidate CMaint m v0 on s10 needs a fifth vehicle for its conflict path [a]: it is now refused *)
+Theorem enumerated_candidate_refused :
+  exists cs c, candidates nwS s10 = Ok cs /\ In c cs /\ apply_cand nwS s10 c = Err.
 Proof.
   destruct (enumerated_in s10 (CMaint m v0)) as (cs & E & Hin).
   { pose proof run_enumerated as H. cbn [forallb] in H. rewrite !andb_true_iff in H. tauto. }
   exists cs, (CMaint m v0). split; [exact E|]. split; [exact Hin|]. vm_compute. reflexivity.
 Qed.
-
-(* hence the statements of NoPanicStmts.v are false without the SpawnRoom premise ... *)
-Theorem apply_cand_no_crash_needs_room :
-  ~ (forall s cs c, Good nwS s -> candidates nwS s = Ok cs -> In c cs -> no_crash (apply_cand nwS s c)).
-Proof.
-  intros H. destruct enumerated_candidate_panics as (cs & c & E & Hin & P).
-  destruct (H s10 cs c s10_good E Hin) as [N _]. congruence.
-Qed.
-(* ... and the premise of stmt_neighbors_no_crash (room in EVERY wreachable schedule) is false on this network *)
+(* the lookup as it was before the repair (an unwrap; still used by improve_depots_of_tour) panics on this state,
+   the repaired one returns Err *)
+Theorem lookup_before_and_after :
+  find_best_start_depot nwS (s_usage s10) 0 (SV 4) = Panic /\ find_best_start_depot_res nwS (s_usage s10) 0 (SV 4) = Err.
+Proof. vm_compute. auto. Qed.
+(* "room in EVERY wreachable schedule" (the premise of stmt_neighbors_no_crash) is false on this network *)
 Theorem room_everywhere_false : ~ (forall s', wreachable nwS s' -> SpawnRoom nwS s').
 Proof. intros H. exact (s10_no_room (H s10 s10_wreachable)). Qed.
-(* the public modification itself panics *)
-Theorem spawn_panics_when_full : spawn_vehicle_for_path nwS s10 0 [SV 4] = Panic.
+(* the public modification is refused as well, and the whole neighbourhood of s10 is generated without a crash *)
+Theorem spawn_refused_when_full : spawn_vehicle_for_path nwS s10 0 [SV 4] = Err.
 Proof. vm_compute. reflexivity. Qed.
+Theorem neighbors_of_full_state_ok : exists l, neighbors nwS s10 = Ok l.
+Proof. destruct (neighbors nwS s10) as [l| | |] eqn:E; [eauto| | |]; vm_compute in E; discriminate E. Qed.
 End WitnessRoom.
-Print Assumptions WitnessRoom.enumerated_candidate_panics.
-Print Assumptions WitnessRoom.apply_cand_no_crash_needs_room.
+Print Assumptions WitnessRoom.enumerated_candidate_refused.
+Print Assumptions WitnessRoom.neighbors_of_full_state_ok.
 Print Assumptions WitnessRoom.room_everywhere_false.
 End NPB_wit.
 
@@ -2720,9 +3234,11 @@ End NPB_chk.
 
 Module NPB_comb.
 Import Sorted.
-Import Base BaseFacts Network NetSpec NetFacts Tour TourSpec TourStmts TourFacts TourValidFacts TourExactStmts TourExactFacts Transition TransSpec Schedule SchedInv SchedObs SchedStruct SchedCostsFacts SchedListFacts SchedToursFacts Swaps SwapsStmts SwapsFacts SwapsStmts2 SwapsFacts2 PipelineSched RenderStmts NoPanicStmts NoPanicFactsA NPB_defs NPB_base NPB_sched NPB_tour NPB_spawn NPB_px NPB_mt NPB_cand NPB_main.
-(* NPB_comb.v — parts A (NoPanicFactsA.v) and B together: [neighbors] never crashes on a wreachable schedule, under the
-   network side conditions of part A and room for two more vehicles in every wreachable schedule *)
+Import Base BaseFacts Network NetSpec NetFacts Tour TourSpec TourStmts TourFacts TourValidFacts TourExactStmts TourExactFacts Transition TransSpec Schedule SchedInv SchedObs SchedStruct SchedCostsFacts SchedUnservedFacts SchedViolFacts SchedListFacts SchedToursFacts SchedFormLimFacts SchedUsageFacts SchedFormsFacts SchedTransFacts SchedExactFacts Swaps SwapsStmts SwapsFacts SwapsStmts2 SwapsFacts2 PipelineSched RenderStmts NoPanicStmts LoadStmts LoadFacts DepotStmts DepotFacts RenderFacts4 EndToEndStmts EndToEndFacts NoPanicFactsA NPB_defs NPB_base NPB_sched NPB_tour NPB_trans NPB_seg NPB_utours NPB_spawn NPB_fit NPB_over NPB_fitre NPB_lim NPB_px NPB_mt NPB_cand NPB_imp.
+(* NPB_comb.v — parts A (NoPanicFactsA.v) and B together, on the repaired model (a spawn without room is refused):
+   [neighbors] never crashes on a wreachable schedule that is within the depot limits (overflow depot included) and
+   whose tours start at listed depots; both properties are kept by every applied candidate, so they need to hold of
+   the INITIAL schedule of the local search only *)
 
 
 Local Open Scope Z_scope.
@@ -2733,6 +3249,9 @@ Hypothesis NF : net_fine nw.
 Hypothesis NX : net_extra_b nw = true.
 Hypothesis DF : dists_finite_b nw = true.
 Hypothesis DH : dh_dists_finite_b nw = true.
+Hypothesis DLI : depot_lists nw.
+Let WF := nf_wf nw NF.
+Let DP := nf_dp nw NF.
 
 Lemma extra_unsigned : unsigned_ok nw.
 Proof.
@@ -2742,35 +3261,181 @@ Proof.
 Qed.
 Lemma extra_cov_all : cov_all nw.
 Proof. intros n Hd. now apply (nondepot_coverable nw NX). Qed.
+Let U := extra_unsigned.
+Let CA := extra_cov_all.
 
-(* room for k more vehicles in every wreachable schedule *)
-Definition RoomAll (k : Z) : Prop := forall s', wreachable nw s' -> SpawnRoom nw s' /\ RoomN nw k (s_usage s').
+(* the state of the local search the theorems speak of *)
+Definition LSOK (s : schedule) : Prop := wreachable nw s /\ FullLimits nw s /\ FKs nw s.
 
-Definition RoomIR (s : schedule) (ch : list vehicle_id) : Prop := RoomN nw (Z.of_nat (length ch)) (s_usage s).
+Lemma wgood s : wreachable nw s -> Good nw s.
+Proof. intros R. apply (wreachable_good nw NF DF DH NF DF DH s R). Qed.
 
-Lemma IR_from_A : forall s changed, wreachable nw s -> RoomIR s changed -> NoDup changed ->
-  (forall v, In v changed -> is_vehicle s v = true) -> exists s', improve_and_recompute nw s changed = Ok s'.
+(* the final step of every swap succeeds *)
+Lemma final_le2 second ch : LSOK second -> NoDup ch -> (forall v, In v ch -> is_vehicle second v = true) ->
+  (length ch <= 2)%nat -> SameTyL second ch ->
+  exists s', improve_and_recompute nw second ch = Ok s'.
 Proof.
-  intros s changed R RM N V.
-  apply (improve_and_recompute_total_under_room nw NF NX s changed); auto.
-  apply (wreachable_good nw NF DF DH NF DF DH s R).
+  intros (R & FL & FK) N V L ST.
+  apply (improve_and_recompute_le2 nw NF NX second (Good_I nw second (wgood second R)) FL FK ch N V L).
+  intros a b Ha Hb. apply ST; auto.
 Qed.
 
-Theorem apply_cand_no_crash_under_rooms s cs c :
-  wreachable nw s -> RoomAll 2 -> candidates nw s = Ok cs -> In c cs -> no_crash (apply_cand nw s c).
+(* FullLimits / FKs across improve_and_recompute *)
+Lemma improve_fl s vs s' : FullLimits nw s -> improve_depots nw s vs = Ok s' -> FullLimits nw s'.
 Proof.
-  intros R RA Ec Hin.
-  destruct (is_exch c || is_maintc c) eqn:K.
-  - apply (apply_cand_exch_maint_no_crash nw NF DF DH extra_unsigned extra_cov_all RoomIR IR_from_A s cs c); auto.
-    + intros s' R'. apply (RA s' R').
-    + intros second ch R2 L2. unfold RoomIR. apply (RoomN_mono nw 2); [lia|]. apply (RA second R2).
-  - apply (apply_cand_simple_no_crash_under_extra nw NF NX DF DH s cs c); auto.
-    + apply (wreachable_good nw NF DF DH NF DF DH s R).
-    + apply (RA s R).
-    + destruct c; cbn in K; try discriminate K; exact I.
+  unfold FullLimits. intros DLI0 H. unfold improve_depots in H. cbv zeta in H.
+  mon H. monp H. monp H. inversion H; subst; clear H.
+  change (fold_left (imp_step1 nw s) match vs with Some l => l | None => vehicles_iter_all nw s end (Ok (s_usage s)) = Ok a) in E.
+  apply fold1_le in E.
+  cbn [with_fields s_usage].
+  eapply (fold_res_inv _ (fun x : list (vehicle_id * tour) * usage_t * Z => FLu nw (snd (fst x)))) in E0.
+  - exact E0.
+  - intros r v x H; destruct r; cbn [bind] in H; try discriminate H; eauto.
+  - intros [[tours u] costs] v x HQ H. cbn [bind fst snd] in *.
+    mon H. mon H. mon H. mon H. inversion H; subst; clear H. cbn [fst snd].
+    destruct (improve_tour_first _ _ _ _ _ E4) as (fnd & FB). apply find_best_can_spawn in FB.
+    eapply FLu_add; [exact HQ| |exact FB].
+    eapply UAdd_ULe_l; [apply UEq_ULe; apply add_despawn_cnt|apply add_spawn_cnt].
+  - cbn [fst snd]. eapply FLu_le; eauto.
 Qed.
 
-Lemma neighbors_fold_nc s cs : (forall c, In c cs -> no_crash (apply_cand nw s c)) ->
+Lemma iar_keeps s ch s' : LSOK s -> improve_and_recompute nw s ch = Ok s' -> LSOK s'.
+Proof.
+  intros (R & FL & FK) H.
+  pose proof (improve_and_recompute_wreach nw s ch s' R H) as R'.
+  unfold improve_and_recompute in H. mon H. mon H. mon H.
+  split; [exact R'|]. split.
+  - unfold FullLimits. unfold recompute_transitions_for in H. monp H. inversion H; subst; clear H.
+    cbn [with_fields s_usage]. apply (improve_fl s (Some ch) a0 FL E0).
+  - eapply recompute_FKs; [|exact H]. eapply improve_FKs; [exact FK|exact E0].
+Qed.
+
+Lemma wrap_ok {A} (r : res A) x : match r with Err => Panic | y => y end = Ok x -> r = Ok x.
+Proof. destruct r; intros H; try discriminate H; exact H. Qed.
+
+(** ** the four candidate kinds *)
+Theorem exch_ok s cs seg p r : LSOK s -> candidates nw s = Ok cs -> In (CExch seg p r) cs ->
+  no_crash (path_exchange nw s seg p r) /\ forall s', path_exchange nw s seg p r = Ok s' -> LSOK s'.
+Proof.
+  intros (R & FL & FK) Ec Hin.
+  pose proof (wreachable_WS nw NF DF DH s R) as W.
+  pose proof (candidates_inv nw s cs _ Ec Hin) as ((sg & Esg & Hseg) & Hr & Npr).
+  destruct (segments_ok nw s p sg Esg) as (tp & Htp & Hok).
+  destruct (listed_has_tour nw s r (ws_inv nw s W) (ws_L nw s W) Hr) as [trc Htr].
+  destruct (path_exchange_pre nw NF DF DH U CA DLI s seg p r tp trc R Htp (Hok seg Hseg) Htr)
+    as [->|(second & ch & R2 & N2 & V2 & L2 & ST & FL2 & FK2 & ->)].
+  - split; [apply nc_err|discriminate].
+  - assert (OK2 : LSOK second) by (split; [exact R2|split; [apply FL2; exact FL|apply FK2; exact FK]]).
+    destruct (final_le2 second ch OK2 N2 V2 L2 ST) as [s' E]. rewrite E. split; [apply nc_ok|].
+    intros s'' Q. inversion Q; subst s''. eapply iar_keeps; eauto.
+Qed.
+
+Theorem maint_ok s cs m v : LSOK s -> candidates nw s = Ok cs -> In (CMaint m v) cs ->
+  no_crash (spawn_vehicle_for_maintenance nw s m v) /\
+  forall s', spawn_vehicle_for_maintenance nw s m v = Ok s' -> LSOK s'.
+Proof.
+  intros (R & FL & FK) Ec Hin.
+  pose proof (wreachable_WS nw NF DF DH s R) as W.
+  pose proof (candidates_inv nw s cs _ Ec Hin) as (Hm & Hv & Hf).
+  apply (iter_all_vehicle nw s v (ws_L nw s W)) in Hv.
+  destruct (maint_pre nw NF DF DH U CA DLI s m v R Hm Hv) as [->|(s3 & ch & R3 & N3 & V3 & L3 & ST & FL3 & FK3 & ->)].
+  - intros occ G. rewrite G in Hf. exact Hf.
+  - split; [apply nc_err|discriminate].
+  - assert (OK3 : LSOK s3) by (split; [exact R3|split; [apply FL3; exact FL|apply FK3; exact FK]]).
+    destruct (final_le2 s3 ch OK3 N3 V3 L3 ST) as [s' E]. rewrite E. split; [apply nc_ok|].
+    intros s'' Q. inversion Q; subst s''. eapply iar_keeps; eauto.
+Qed.
+
+Theorem hitch_ok s cs n v : LSOK s -> candidates nw s = Ok cs -> In (CHitch n v) cs ->
+  no_crash (add_trip_for_hitch_hiking nw s n v) /\
+  forall s', add_trip_for_hitch_hiking nw s n v = Ok s' -> LSOK s'.
+Proof.
+  intros (R & FL & FK) Ec Hin.
+  pose proof (wreachable_WS nw NF DF DH s R) as W.
+  destruct (candidates_hitch nw s cs n v Ec Hin) as (Hv & ty & Gty & Hn).
+  apply (iter_all_vehicle nw s v (ws_L nw s W)) in Hv.
+  assert (Ity : In ty (type_ids nw)) by (eapply veh_type_in_ids; [exact (ws_L nw s W)|exact Gty]).
+  assert (Cn : In n (coverable_nodes nw)).
+  { destruct (NX_parts nw NX) as (_ & _ & _ & H). unfold nodes_coverable_b in H. apply andb_true_iff in H.
+    destruct H as [_ H]. rewrite forallb_forall in H. specialize (H ty Ity). rewrite forallb_forall in H.
+    apply mem_nid_in. apply H. exact Hn. }
+  pose proof (coverable_not_depot nw n (nf_ml nw NF) Cn) as Dn.
+  assert (VN : valid_path nw [n]) by (apply single_valid_path; exact Dn).
+  unfold add_trip_for_hitch_hiking.
+  destruct (nget n (s_forms s)) as [f|] eqn:Ef.
+  2:{ exfalso. apply (nget_key_ne n (s_forms s)); [|exact Ef]. apply (fo_keys nw s (ws_forms nw s W)). exact Cn. }
+  cbn [unwrap_opt bind].
+  match goal with |- no_crash (if ?c then _ else _) /\ _ => destruct c; [split; [apply nc_err|discriminate]|] end.
+  destruct (nc_cases _ (add_path_nc nw NF DF U CA s v [n] (ws_inv nw s W) (ws_L nw s W) (ws_T nw s W) (ws_E nw s W)
+              (ws_us nw s W) (ws_trans nw s W) (ws_forms nw s W) Hv VN)) as [->|[[s1 c] E1]];
+    [split; [apply nc_err|discriminate]|].
+  rewrite E1. cbn [bind]. destruct c as [rp|]; [split; [apply nc_err|discriminate]|].
+  pose proof (wreach_add_path nw s v [n] s1 None R VN E1) as R1.
+  assert (Vs1 : s_vehicles s1 = s_vehicles s).
+  { pose proof E1 as E1'. unfold add_path_to_vehicle_tour in E1'.
+    match type of E1' with (if ?b then _ else _) = _ => destruct b; [discriminate|] end.
+    mon E1'. mon E1'. monp E1'. mon E1'. monp E1'. monp E1'. mon E1'. mon E1'. monp E1'. inversion E1'; subst; clear E1'.
+    reflexivity. }
+  assert (OK1 : LSOK s1).
+  { split; [exact R1|]. split.
+    - unfold FullLimits. eapply FLu_le; [|exact FL].
+      eapply (add_path_le nw WF DP s v [n] s1 None); eauto; [apply (ws_inv nw s W)|apply (ws_T nw s W)].
+    - eapply (add_path_FKs nw WF DP s v [n] s1 None); eauto; [apply (ws_inv nw s W)|apply (ws_T nw s W)|].
+      intros Q. cbn [hd] in Q. rewrite Dn in Q. discriminate Q. }
+  destruct (final_le2 s1 [v] OK1) as [s' E].
+  - repeat constructor. intros [].
+  - intros x [<-|[]]. unfold is_vehicle. rewrite Vs1. exact Hv.
+  - cbn. lia.
+  - apply (SameTyL_single s1 [v] v). intros x [<-|[]]. reflexivity.
+  - rewrite E. split; [apply nc_ok|]. intros s'' Q. inversion Q; subst s''. eapply iar_keeps; eauto.
+Qed.
+
+Lemma remove_fl s seg v s' : SchedCostsFacts.Inv nw s -> TIs nw s -> FullLimits nw s ->
+  remove_segment nw s seg v = Ok s' -> FullLimits nw s'.
+Proof.
+  unfold FullLimits. intros I T DLI0 H. unfold remove_segment in H.
+  destruct (negb (is_vehicle s v)) eqn:IV; [discriminate|]. apply negb_false_iff in IV.
+  mon H. monp H. destruct o as [nt|].
+  - monp H. monp H. mon H.
+    match type of H with (match ?m with pair _ _ => _ end) = _ => destruct m as [[? ?] ?] end.
+    monp H. inversion H; subst; clear H.
+    cbn [with_fields s_usage]. apply panic_ok in E.
+    eapply FLu_le; [|exact DLI0]. eapply udu_same; [exact E3|].
+    intros ty t Gty Gt. split; [exact IV|]. exists a. split; [exact E|].
+    destruct (real_tour nw s v ty a I T Gty E) as (V & D & _).
+    rewrite (utc_real _ _ _ _ _ _ _ _ _ E2 (real_not_dummy nw s v ty I Gty)) in Gt. inversion Gt; subst t.
+    rewrite (remove_first nw a seg nt l V D E0). reflexivity.
+  - unfold replace_vehicle_by_dummy in H.
+    destruct (negb _) in H; [discriminate|].
+    mon H. mon H. mon H. monp H. mon H. mon H. mon H.
+    match type of H with (match ?m with pair _ _ => _ end) = _ => destruct m as [[? ?] ?] end.
+    monp H. inversion H; subst; clear H.
+    cbn [with_fields s_usage].
+    match goal with Q : update_depot_usage _ _ _ _ _ _ = Ok _ |- _ =>
+      apply udu_cnt in Q; rewrite vget_vdel, vid_eqb_refl in Q; eapply FLu_le; eauto end.
+Qed.
+
+Theorem remove_ok s n v : LSOK s ->
+  no_crash (remove_single_node nw s n v) /\ forall s', remove_single_node nw s n v = Ok s' -> LSOK s'.
+Proof.
+  intros (R & FL & FK). pose proof (wreachable_WS nw NF DF DH s R) as W.
+  split; [apply (remove_segment_no_crash nw NF NX DF DH s (n, n) v (wgood s R))|].
+  unfold remove_single_node. intros s' H. split; [eapply wreach_remove_segment; eauto|]. split.
+  - eapply remove_fl; eauto; [apply (ws_inv nw s W)|apply (ws_T nw s W)].
+  - eapply remove_segment_FKs; eauto; [apply (ws_inv nw s W)|apply (ws_T nw s W)].
+Qed.
+
+Theorem apply_cand_ok s cs c : LSOK s -> candidates nw s = Ok cs -> In c cs ->
+  no_crash (apply_cand nw s c) /\ forall s', apply_cand nw s c = Ok s' -> LSOK s'.
+Proof.
+  intros OK Ec Hin. destruct c as [m v|seg p r|n v|n v]; cbn [apply_cand].
+  - eapply maint_ok; eauto.
+  - eapply exch_ok; eauto.
+  - eapply hitch_ok; eauto.
+  - apply remove_ok; auto.
+Qed.
+
+Lemma neighbors_fold_ok s cs : (forall c, In c cs -> no_crash (apply_cand nw s c)) ->
   forall acc, no_crash (fold_left (fun acc c =>
     do l <- acc;
     match apply_cand nw s c with
@@ -2785,17 +3450,243 @@ Proof.
   destruct (apply_cand nw s c); try congruence; apply IH; intros c' Hc'; apply H; now right.
 Qed.
 
-(* stmt_neighbors_no_crash with its premises strengthened to what the model needs *)
-Theorem neighbors_no_crash_under_rooms s : wreachable nw s -> RoomAll 2 -> no_crash (neighbors nw s).
+(* C11 / C06 on the repaired model: generating the candidates of a schedule within its depot limits never crashes,
+   and every neighbour is again such a schedule *)
+Theorem neighbors_no_crash_limits s : LSOK s -> no_crash (neighbors nw s).
 Proof.
-  intros R RA. unfold neighbors.
-  destruct (candidates_total nw NF s (wreachable_good nw NF DF DH NF DF DH s R)) as [cs Ec]. rewrite Ec. cbn [bind].
-  apply neighbors_fold_nc. intros c Hc. eapply apply_cand_no_crash_under_rooms; eauto.
+  intros OK. pose proof OK as (R & _). unfold neighbors.
+  destruct (candidates_total nw NF s (wgood s R)) as [cs Ec]. rewrite Ec. cbn [bind].
+  apply neighbors_fold_ok. intros c Hc. eapply apply_cand_ok; eauto.
+Qed.
+
+Theorem neighbors_keep_limits s l : LSOK s -> neighbors nw s = Ok l -> forall c s', In (c, s') l -> LSOK s'.
+Proof.
+  intros OK H c s' Hin.
+  destruct (neighbors_are_applications nw s l H) as (cs & Ec & Hcs).
+  destruct (Hcs c s' Hin) as [Hc Ha]. eapply apply_cand_ok; eauto.
+Qed.
+
+(* every schedule the local search can visit from [s0] *)
+Inductive ls_reach (s0 : schedule) : schedule -> Prop :=
+| lr_refl : ls_reach s0 s0
+| lr_step s l c s' : ls_reach s0 s -> neighbors nw s = Ok l -> In (c, s') l -> ls_reach s0 s'.
+
+Theorem local_search_never_crashes s0 : LSOK s0 -> forall s, ls_reach s0 s -> LSOK s /\ no_crash (neighbors nw s).
+Proof.
+  intros OK0 s H. assert (OK : LSOK s).
+  { induction H; [exact OK0|]. eapply neighbors_keep_limits; eauto. }
+  split; [exact OK|apply neighbors_no_crash_limits; exact OK].
 Qed.
 End Comb.
-Print Assumptions apply_cand_no_crash_under_rooms.
-Print Assumptions neighbors_no_crash_under_rooms.
+
+(** * loaded networks *)
+Theorem neighbors_no_crash_loaded : forall i perm nw,
+  valid_instance_b i = true -> params_costs_nonneg (i_params i) -> perm_ok i perm -> load i perm = Ok nw ->
+  forall s, wreachable nw s -> FullLimits nw s -> FKs nw s -> no_crash (neighbors nw s).
+Proof.
+  intros i perm nw V PC PO LD s R FL FK.
+  pose proof (load_net_fine i perm nw V PO LD) as NF.
+  pose proof (load_extra i perm nw V PC LD) as NX.
+  destruct (load_wf_partial i perm nw V PO LD) as (_ & _ & DF).
+  pose proof (load_dh_finite i perm nw LD) as DH.
+  pose proof (load_depot_lists i perm nw LD) as DLI.
+  apply (neighbors_no_crash_limits nw NF NX DF DH DLI). split; [exact R|split; [exact FL|exact FK]].
+Qed.
+
+Theorem local_search_never_crashes_loaded : forall i perm nw,
+  valid_instance_b i = true -> params_costs_nonneg (i_params i) -> perm_ok i perm -> load i perm = Ok nw ->
+  forall s0, wreachable nw s0 -> FullLimits nw s0 -> FKs nw s0 ->
+  forall s, ls_reach nw s0 s -> no_crash (neighbors nw s) /\ FullLimits nw s /\ FKs nw s.
+Proof.
+  intros i perm nw V PC PO LD s0 R FL FK s H.
+  pose proof (load_net_fine i perm nw V PO LD) as NF.
+  pose proof (load_extra i perm nw V PC LD) as NX.
+  destruct (load_wf_partial i perm nw V PO LD) as (_ & _ & DF).
+  pose proof (load_dh_finite i perm nw LD) as DH.
+  pose proof (load_depot_lists i perm nw LD) as DLI.
+  destruct (local_search_never_crashes nw NF NX DF DH DLI s0 (conj R (conj FL FK)) s H) as ((_ & A & B) & C). auto.
+Qed.
+Print Assumptions neighbors_no_crash_limits.
+Print Assumptions local_search_never_crashes.
+Print Assumptions neighbors_no_crash_loaded.
+Print Assumptions local_search_never_crashes_loaded.
 End NPB_comb.
+
+Module NPB_wit3.
+Import Sorted.
+Import Base BaseFacts Network NetSpec NetFacts Tour TourSpec TourStmts TourFacts TourValidFacts TourExactStmts TourExactFacts Transition TransSpec Schedule SchedInv SchedObs SchedStruct SchedCostsFacts SchedListFacts SchedToursFacts Swaps SwapsStmts SwapsFacts SwapsStmts2 SwapsFacts2 PipelineSched RenderStmts NoPanicStmts LoadStmts LoadFacts DepotStmts DepotFacts RenderFacts4 EndToEndStmts EndToEndFacts NoPanicFactsA NPB_defs NPB_base NPB_lim NPB_wit NPB_comb.
+(* NPB_wit3.v — executable readings of FullLimits / FKs; the full-depot state of WitnessRoom satisfies the hypotheses of
+   the final theorem; and the limits hypothesis cannot be dropped for arbitrary wreachable schedules (WitnessLimits) *)
+
+
+Local Open Scope Z_scope.
+
+Section Chk.
+Variable nw : network.
+Notation sst := spawned_same_type.
+
+Definition caps_nonneg_b : bool :=
+  forallb (fun '(_, (dp, _, _)) => (0 <=? dp_total dp) &&
+             forallb (fun '(_, oc) => match oc with Some c => 0 <=? c | None => true end) (dp_allowed dp)) (nw_depots nw).
+Definition full_limits_b (U : usage_t) : bool :=
+  forallb (fun '((d, ty), (sp, _)) => Z.of_nat (length sp) <=? capacity_of nw d ty) U &&
+  forallb (fun '((d, _), _) => spawned_total nw U d <=? total_capacity_of nw d) U.
+Definition fks_b (s : schedule) : bool :=
+  forallb (fun '(_, t) => mem_nid (first_node t) (nw_sdepots nw)) (s_tours s).
+
+Lemma caps_nonneg_ok : caps_nonneg_b = true -> forall d, 0 <= total_capacity_of nw d /\ forall ty, 0 <= capacity_of nw d ty.
+Proof.
+  unfold caps_nonneg_b. rewrite forallb_forall. intros H d. unfold total_capacity_of, capacity_of, depot_entry.
+  destruct (assoc Z.eqb d (nw_depots nw)) as [[[dp a] b]|] eqn:E; [|split; [lia|intros; lia]].
+  apply (assoc_in Z.eqb Z.eqb_eq) in E. specialize (H _ E). cbn in H. apply andb_true_iff in H. destruct H as [H1 H2].
+  apply Z.leb_le in H1. split; [exact H1|]. intros ty. unfold depot_capacity_for.
+  destruct (assoc Z.eqb ty (dp_allowed dp)) as [[c|]|] eqn:A; try lia.
+  apply (assoc_in Z.eqb Z.eqb_eq) in A. rewrite forallb_forall in H2. specialize (H2 _ A). cbn in H2.
+  apply Z.leb_le in H2. lia.
+Qed.
+
+Lemma uget_in (U : usage_t) k x : uget k U = Some x -> In (k, x) U.
+Proof.
+  unfold uget. induction U as [|[k' y] U IH]; cbn [assoc]; [discriminate|].
+  destruct (pair_eqb k k') eqn:E.
+  - apply pair_eqb_eq in E. subst. intros H. inversion H. now left.
+  - intros H. right. auto.
+Qed.
+
+Lemma sst_pos_in (U : usage_t) d ty : 0 < sst U d ty -> exists x, In ((d, ty), x) U.
+Proof.
+  unfold spawned_same_type. destruct (uget (d, ty) U) as [x|] eqn:E; [|lia]. intros _. exists x. now apply uget_in.
+Qed.
+
+Lemma z_sum_pos_ex {A} (f : A -> Z) l : 0 < z_sum (map f l) -> exists x, In x l /\ 0 < f x.
+Proof.
+  induction l as [|a l IH]; [cbn; lia|]. cbn [map]. rewrite z_sum_cons. intros H.
+  destruct (Z.lt_ge_cases 0 (f a)) as [Q|Q]; [exists a; split; [now left|exact Q]|].
+  destruct IH as (x & Hx & Px); [lia|]. exists x. split; [now right|exact Px].
+Qed.
+
+Lemma full_limits_b_ok U : caps_nonneg_b = true -> full_limits_b U = true -> FLu nw U.
+Proof.
+  intros CN H d. destruct (caps_nonneg_ok CN d) as [T0 C0].
+  unfold full_limits_b in H. apply andb_true_iff in H. destruct H as [H1 H2]. rewrite forallb_forall in H1, H2. split.
+  - intros ty. unfold spawned_same_type. destruct (uget (d, ty) U) as [[sp de]|] eqn:E; [|apply C0].
+    apply uget_in in E. specialize (H1 _ E). cbn in H1. now apply Z.leb_le.
+  - destruct (Z.lt_ge_cases 0 (spawned_total nw U d)) as [Q|Q]; [|lia].
+    unfold spawned_total in Q. apply z_sum_pos_ex in Q. destruct Q as (ty & _ & P).
+    apply sst_pos_in in P. destruct P as (x & Hx). specialize (H2 _ Hx). cbn in H2. now apply Z.leb_le.
+Qed.
+
+Lemma fks_b_ok s : fks_b s = true -> FKs nw s.
+Proof.
+  unfold fks_b. rewrite forallb_forall. intros H v t G. unfold vget in G.
+  apply (assoc_in vid_eqb vid_eqb_eq) in G. specialize (H _ G). cbn in H. now apply mem_nid_in.
+Qed.
+End Chk.
+
+(** * the full-depot state of WitnessRoom is covered by the final theorem *)
+Module RoomCovered.
+Import WitnessRoom.
+Lemma s10_limits : FullLimits nwS s10.
+Proof. apply full_limits_b_ok; vm_compute; reflexivity. Qed.
+Lemma s10_fks : FKs nwS s10.
+Proof. apply fks_b_ok. vm_compute. reflexivity. Qed.
+Lemma instS_valid : valid_instance_b instS = true.
+Proof. vm_compute. reflexivity. Qed.
+Lemma instS_costs : params_costs_nonneg (i_params instS).
+Proof. vm_compute. repeat split; discriminate. Qed.
+Theorem s10_neighbors_no_crash : no_crash (neighbors nwS s10).
+Proof.
+  assert (PO : perm_ok instS []) by (intros Q; discriminate Q).
+  exact (neighbors_no_crash_loaded instS [] nwS instS_valid instS_costs PO nwS_loaded s10 s10_wreachable s10_limits s10_fks).
+Qed.
+End RoomCovered.
+
+(** * the limits hypothesis is needed among arbitrary wreachable schedules *)
+Module WitnessLimits.
+(* two types without formation limit; depot 0 (location 0, capacity 1, type 0 only), depot 1 (location 1, capacity 1,
+   both types); trips tA = SV 6 (type 0) and tB = SV 7 (type 1), both L1->L2 10000-11000; slot MT 8 at L2 12000-13000.
+   Overflow depot: capacity 3. *)
+Definition instT : instance := {|
+  i_types := [ {| vt_cap := 100; vt_seats := 50; vt_limit := None |}; {| vt_cap := 100; vt_seats := 50; vt_limit := None |} ];
+  i_nlocs := 3;
+  i_depots := Some [ {| id_loc := 0; id_cap := 1; id_allowed := [(0, None)] |};
+                     {| id_loc := 1; id_cap := 1; id_allowed := [(0, None); (1, None)] |} ];
+  i_routes := [ {| r_type := 0; r_segs := [ {| rs_origin := 1; rs_dest := 2; rs_dist := 1000; rs_dur := 1000; rs_limit := None |} ] |};
+                {| r_type := 1; r_segs := [ {| rs_origin := 1; rs_dest := 2; rs_dist := 1000; rs_dur := 1000; rs_limit := None |} ] |} ];
+  i_departures := [ {| d_route := 0; d_segs := [ {| ds_rseg := 0; ds_dep := 10000; ds_pass := 10; ds_seated := 5 |} ] |};
+                    {| d_route := 1; d_segs := [ {| ds_rseg := 0; ds_dep := 10000; ds_pass := 10; ds_seated := 5 |} ] |} ];
+  i_slots := Some [ {| is_loc := 2; is_start := 12000; is_end := 13000; is_tracks := 1 |} ];
+  i_dh_dur := [[0; 60; 60]; [60; 0; 60]; [60; 60; 0]];
+  i_dh_dist := [[0; 1000; 1000]; [1000; 0; 1000]; [1000; 1000; 0]];
+  i_params := {| p_forbid := false; p_min := 0; p_dht := 0; p_maxdist := 100000;
+                 c_staff := 1; c_service := 1; c_maint := 0; c_dh := 5; c_idle := 1 |} |}.
+Definition nwT : network := Eval vm_compute in get_ok (load instT []) nw_dflt.
+Lemma nwT_loaded : load instT [] = Ok nwT.
+Proof. vm_compute. reflexivity. Qed.
+Lemma instT_valid : valid_instance_b instT = true.
+Proof. vm_compute. reflexivity. Qed.
+Definition sp (s : schedule) (ty : Z) (p : list node_id) : schedule :=
+  fst (get_ok (spawn_vehicle_for_path nwT s ty p) (s_dflt, Veh 99)).
+Definition t0 : schedule := Eval vm_compute in get_ok (empty_schedule nwT) s_dflt.
+Definition t1 := Eval vm_compute in sp t0 1 [SV 7; MT 8].
+Definition t2 := Eval vm_compute in sp t1 0 [SV 6].
+Definition t3 := Eval vm_compute in sp t2 0 [SV 6].
+Definition t4 := Eval vm_compute in sp t3 0 [SV 6].
+Definition t5 := Eval vm_compute in sp t4 0 [SV 6].
+(* all depots are full now; a path that names the full depot 0 is put into the overflow depot WITHOUT a check *)
+Definition t6 := Eval vm_compute in sp t5 0 [SD 0; SV 6; ED 1].
+
+Lemma vpT l : l = [SV 7; MT 8] \/ l = [SV 6] \/ l = [SD 0; SV 6; ED 1] -> valid_path nwT l.
+Proof.
+  intros [->|[->| ->]]; (split; [discriminate|]); (split; [|vm_compute; reflexivity]);
+    intros x y Hin; cbn in Hin; repeat (destruct Hin as [E|Hin]; [inversion E; subst; vm_compute; reflexivity|]); destruct Hin.
+Qed.
+
+Lemma t6_wreachable : wreachable nwT t6.
+Proof.
+  assert (S : forall s ty p s' v, wreachable nwT s -> valid_path nwT p -> spawn_vehicle_for_path nwT s ty p = Ok (s', v) -> wreachable nwT s').
+  { intros s ty p s' v R V E. eapply wr_step; [exact R|]. eapply ws_spawn; eauto. }
+  assert (R0 : wreachable nwT t0) by (apply wr_empty; vm_compute; reflexivity).
+  assert (R1 : wreachable nwT t1) by (apply (S t0 1 [SV 7; MT 8] t1 (Veh 0) R0); [apply vpT; auto|vm_compute; reflexivity]).
+  assert (R2 : wreachable nwT t2) by (apply (S t1 0 [SV 6] t2 (Veh 1) R1); [apply vpT; auto|vm_compute; reflexivity]).
+  assert (R3 : wreachable nwT t3) by (apply (S t2 0 [SV 6] t3 (Veh 2) R2); [apply vpT; auto|vm_compute; reflexivity]).
+  assert (R4 : wreachable nwT t4) by (apply (S t3 0 [SV 6] t4 (Veh 3) R3); [apply vpT; auto|vm_compute; reflexivity]).
+  assert (R5 : wreachable nwT t5) by (apply (S t4 0 [SV 6] t5 (Veh 4) R4); [apply vpT; auto|vm_compute; reflexivity]).
+  apply (S t5 0 [SD 0; SV 6; ED 1] t6 (Veh 5) R5); [apply vpT; auto|vm_compute; reflexivity].
+Qed.
+
+Lemma t6_tours :
+  map (fun '(v, t) => (v, t_nodes t)) (s_tours t6) =
+    [(Veh 0, [SD 2; SV 7; MT 8; ED 1]); (Veh 1, [SD 0; SV 6; ED 1]); (Veh 2, [SD 4; SV 6; ED 1]);
+     (Veh 3, [SD 4; SV 6; ED 1]); (Veh 4, [SD 4; SV 6; ED 1]); (Veh 5, [SD 4; SV 6; ED 5])].
+Proof. vm_compute. reflexivity. Qed.
+
+(* four vehicles in the overflow depot of capacity 3 *)
+Lemma t6_over : spawned_total nwT (s_usage t6) 2 = 4 /\ total_capacity_of nwT 2 = 3 /\ FKs nwT t6.
+Proof. split; [vm_compute; reflexivity|]. split; [vm_compute; reflexivity|]. apply fks_b_ok. vm_compute. reflexivity. Qed.
+Theorem t6_not_within_limits : ~ FullLimits nwT t6.
+Proof. intros H. destruct (H 2) as [_ B]. destruct t6_over as (E1 & E2 & _). rewrite E1, E2 in B. lia. Qed.
+
+Definition c : cand := CExch (SV 6, SV 6) (Veh 1) (Veh 2).
+(* moving the trip of Veh 1 to Veh 2 (which sits in the over-full overflow depot) re-homes Veh 2: its own place is not
+   free after the release, no other depot has room: improve_depots_of_tour's expect panics *)
+Theorem enumerated_candidate_panics :
+  exists cs, candidates nwT t6 = Ok cs /\ In c cs /\ apply_cand nwT t6 c = Panic.
+Proof.
+  destruct (candidates nwT t6) as [cs| | |] eqn:E; try (vm_compute in E; discriminate E).
+  exists cs. split; [reflexivity|]. split; [|vm_compute; reflexivity].
+  vm_compute in E. inversion E; subst cs. unfold c. cbn. tauto.
+Qed.
+Theorem limits_needed :
+  ~ (forall s, wreachable nwT s -> FKs nwT s -> no_crash (neighbors nwT s)).
+Proof.
+  intros H. destruct t6_over as (_ & _ & K). destruct (H t6 t6_wreachable K) as [N _]. apply N. vm_compute. reflexivity.
+Qed.
+End WitnessLimits.
+Print Assumptions RoomCovered.s10_neighbors_no_crash.
+Print Assumptions WitnessLimits.enumerated_candidate_panics.
+Print Assumptions WitnessLimits.limits_needed.
+End NPB_wit3.
 
 (** * the main results, at top level *)
 Definition wreachable_good := NPB_base.wreachable_good.
@@ -2813,23 +3704,29 @@ Definition insert_path_total := NPB_tour.insert_path_total.
 Definition path_exchange_pre := NPB_px.path_exchange_pre.
 Definition maint_pre := NPB_mt.maint_pre.
 Definition candidates_inv := NPB_cand.candidates_inv.
-Definition path_exchange_nc_enumerated := NPB_main.path_exchange_nc_enumerated.
-Definition maintenance_nc_enumerated := NPB_main.maintenance_nc_enumerated.
-Definition apply_cand_exch_maint_no_crash := NPB_main.apply_cand_exch_maint_no_crash.
-Definition room_witness_candidate_panics := NPB_wit.WitnessRoom.enumerated_candidate_panics.
-Definition apply_cand_no_crash_needs_room := NPB_wit.WitnessRoom.apply_cand_no_crash_needs_room.
+Definition improve_and_recompute_le2 := NPB_imp.improve_and_recompute_le2.
+Definition apply_cand_ok := NPB_comb.apply_cand_ok.
+Definition neighbors_no_crash_limits := NPB_comb.neighbors_no_crash_limits.
+Definition neighbors_keep_limits := NPB_comb.neighbors_keep_limits.
+Definition local_search_never_crashes := NPB_comb.local_search_never_crashes.
+Definition neighbors_no_crash_loaded := NPB_comb.neighbors_no_crash_loaded.
+Definition local_search_never_crashes_loaded := NPB_comb.local_search_never_crashes_loaded.
+Definition room_witness_candidate_refused := NPB_wit.WitnessRoom.enumerated_candidate_refused.
 Definition room_everywhere_false := NPB_wit.WitnessRoom.room_everywhere_false.
 Definition apply_cand_no_crash_refuted := NPB_wit2.WitnessGood.apply_cand_no_crash_refuted.
-Definition apply_cand_no_crash_under_rooms := NPB_comb.apply_cand_no_crash_under_rooms.
-Definition neighbors_no_crash_under_rooms := NPB_comb.neighbors_no_crash_under_rooms.
+Definition limits_witness_candidate_panics := NPB_wit3.WitnessLimits.enumerated_candidate_panics.
+Definition limits_needed := NPB_wit3.WitnessLimits.limits_needed.
 Print Assumptions wreachable_good.
 Print Assumptions path_exchange_pre.
 Print Assumptions maint_pre.
-Print Assumptions path_exchange_nc_enumerated.
-Print Assumptions maintenance_nc_enumerated.
-Print Assumptions apply_cand_exch_maint_no_crash.
-Print Assumptions apply_cand_no_crash_needs_room.
+Print Assumptions improve_and_recompute_le2.
+Print Assumptions apply_cand_ok.
+Print Assumptions neighbors_no_crash_limits.
+Print Assumptions local_search_never_crashes.
+Print Assumptions neighbors_no_crash_loaded.
+Print Assumptions local_search_never_crashes_loaded.
+Print Assumptions room_witness_candidate_refused.
 Print Assumptions room_everywhere_false.
 Print Assumptions apply_cand_no_crash_refuted.
-Print Assumptions apply_cand_no_crash_under_rooms.
-Print Assumptions neighbors_no_crash_under_rooms.
+Print Assumptions limits_witness_candidate_panics.
+Print Assumptions limits_needed.
